@@ -1,10 +1,13 @@
 """C06 — every backprop routine returns the true gradient of its forward routine.
 
 One harness, one table.  Every row of the table names a *companion* routine (the thing under test), the forward
-it belongs to and a generator of argument classes.  Two deciding tests:
+it belongs to and a generator of argument classes.  Deciding tests:
 
   linear forward A      <ybar, A x> == <A^H ybar, x>  as complex numbers, for random x, ybar (x / ybar real where the
-                        routine is real-only), |difference| <= 1e-9 * |x| |ybar| |A|   (|A| estimated from the probes)
+                        routine is real-only), |difference| <= 1e-9 * |x| |ybar| |A|   (|A| estimated from the probes).
+                        A case is a *plan* of forward and backprop calls on the same objects (same argument arrays,
+                        same DM / executor / Wavefront instance); every backprop call is paired with every forward
+                        call of the same map, each side judged with the value its argument had when the call was made
   non-linear forward f  c(x) = Re<gbar, f(x)>; the derivative of t -> c(x + t d) measured by central differences at
                         h, h/2, h/4 + two Richardson steps must equal Re<backprop(gbar), d> within 1e-6 * |gbar| |J d|;
                         points where the two O(h^4) extrapolants disagree by more than 1e-7 are dropped and counted
@@ -12,28 +15,42 @@ it belongs to and a generator of argument classes.  Two deciding tests:
                         reference = Richardson differences where well conditioned, else the complex-step derivative after
                         it has been validated against Richardson on the well-conditioned elements of the same case
   costs                 returned gradient vs directional derivative of the returned cost
+  histories             the same laws on an object that has already been used: other flags (DM wfe on/off), other
+                        shapes, other temperatures, copies made after use, caches filled by the backprop before the
+                        forward, caches cleared in between; plus the result of a used object against a brand-new one
+  configurations        precision 32 / mixed dtypes: linear rows by the adjoint law itself at single-precision
+                        tolerance, non-linear rows by agreement of the narrow result with the double-precision result
+                        of the same routine on the same numbers (which the finite-difference oracle has just
+                        validated); then the double-precision call is repeated on the same objects at full tolerance
+  layouts               the same numbers as Fortran-ordered, strided and negatively strided arrays
 
 The violation key is  C06/<companion routine>/<argument class>  (plus /raises:<Type> when the routine throws on an
-in-domain input, /shape when the gradient does not have the shape of the forward input).
+in-domain input, /shape when the gradient does not have the shape of the forward input, /repeat-call, /after-...
+for failures that need a history) or  C06/<companion routine>/dtypes:<precision>/<field dtype>/<gradient dtype>  and
+C06/<companion routine>/layout:<layout>  for failures that only show in that configuration.
 """
+import copy
 import math
+import warnings
 
 import numpy as np
 
 from ..core import shape_class
 from ..refmodels.diffops import (inner, norm, richardson_directional, richardson_elementwise,
-                                 complex_step_elementwise)
+                                 complex_step_elementwise, cast, f32_exact, relayout, hutchinson_norm)
 from ..util import precision
 
-RULE = ('table of (forward, companion, argument generator); per row the argument classes (shape kind sq/nonsq/line x '
+RULE = ('table of (forward, companion, argument generator); per row the argument classes (shape kind sq/nonsq/line/big/sliver x '
         'parity, scalar/per-axis Q, zero/non-zero shift, equal/unequal pupil-focal-mask shapes, real/complex masks and '
         'Lyot stops, DM geometry features, node parameters, masked/unmasked costs) are enumerated smallest first, '
-        'then filled with random members; arrays are regenerated from the per-case sub-seed in the descriptor. '
+        'then filled with random members; every class is crossed with a call-plan variant (plain + repeat with the same '
+        'argument objects, backprop before forward, memory layouts, precision/dtype schedule ending with a full-tolerance '
+        'double-precision call, object histories); arrays are regenerated from the per-case sub-seed in the descriptor. '
         'A case is non-trivial when input and upstream gradient have >= 2 non-zero samples and the forward response '
         '(A x, or J d) is not identically zero; distinct = distinct descriptor')
 ASSUMPTIONS = [
-    'inner product <a,b> = sum conj(a) b; gradient convention fixed by the library itself (intensity_backprop '
-    'returns 2*Ibar*E, i.e. dc = Re<Gbar, d>), so the backprop of a complex-linear map is its adjoint A^H',
+    'inner product <a,b> = sum conj(a) b, accumulated in double precision; gradient convention fixed by the library itself '
+    '(intensity_backprop returns 2*Ibar*E, i.e. dc = Re<Gbar, d>), so the backprop of a complex-linear map is its adjoint A^H',
     'the forward routine of the working tree is the definition of the map (C06 does not ask whether the forward is '
     'physically right, only that the companion differentiates it)',
     'three-level Richardson extrapolation of central differences is accurate to 1e-7 relative where its own '
@@ -43,7 +60,17 @@ ASSUMPTIONS = [
     'finite differences are trusted only where the response |J d| exceeds 1e-5 |f(x)| (saturated soft-max and the like are '
     'excluded and counted)',
     'GumbelSoftmax is differentiated at fixed noise: the same seeded Generator is injected before every forward call',
-    'numpy.vdot / matmul round-off is far below 1e-9 relative for the sizes used (<= 56x56); observed <= 1e-15',
+    'numpy.vdot / matmul round-off is far below 1e-9 relative for the sizes used (<= 320x320); observed <= 1e-14',
+    'every call is judged with the value its arguments had when it was made (snapshots): a routine that scales its '
+    'upstream-gradient argument in place (DM.render_backprop does, its docstring calls the argument a work-in-progress '
+    'array) still returns the true gradient for the value it was handed, also on a later call with the same object, so '
+    'that is counted as an event, not a violation; in-place changes of *parameters* (masks, modes, data, fields) are '
+    'caught because later calls of the same plan then stop satisfying the law',
+    'single-precision slices: the law / the agreement with the double-precision twin is demanded to 1e-3 relative (adjoint law, measured round-off <= 4e-7) / 2e-2 relative '
+    '(gradient against its double-precision twin, measured round-off <= 1.3e-5) only; a narrow-configuration forward that differs from the double-precision forward by more '
+    'than 1e-4 relative is excluded and counted (the twin would then be the gradient of another function)',
+    'a used object and a brand-new one (same constructor arguments, same call) must agree to round-off because the '
+    'routines are deterministic; 1e-11 relative is allowed for re-association',
 ]
 REQUIRED = []          # filled from the table below
 UNREACHABLE = ['focal-plane masks / Lyot stops given as Wavefront objects: the forward routine itself raises TypeError '
@@ -53,7 +80,10 @@ UNREACHABLE = ['focal-plane masks / Lyot stops given as Wavefront objects: the f
 RT_LIN = 1e-9
 RT_DIR = 1e-6
 SETTLE = 1e-7
-RT_F32 = 2e-4
+RT_F32 = 1e-3      # single-precision adjoint law (measured round-off <= 2e-7)
+RT_F32_NL = 2e-2   # single-precision gradient vs its double-precision twin (measured round-off <= 1.3e-5)
+RT_SAME = 1e-11     # used object vs brand-new object, repeat call vs first call (deterministic routines)
+FWD_F32 = 1e-4      # a narrow-configuration forward further than this from the double one is another function
 FLOOR = 1e-5        # smallest |J d| / |f(x)| at which a finite-difference reference is trusted
 
 
@@ -70,48 +100,174 @@ def nz(v):
     return any(float(s) != 0 for s in v)
 
 
+def same(a, b):
+    a, b = np.asarray(a), np.asarray(b)
+    if a.shape != b.shape:
+        return False
+    return bool(np.array_equal(a, b, equal_nan=(a.dtype.kind in 'fc' and b.dtype.kind in 'fc')))
+
+
+def _dt(kind, level):
+    return {('c', 'lo'): 'c64', ('c', 'hi'): 'c128', ('r', 'lo'): 'f32', ('r', 'hi'): 'f64'}[(kind, level)]
+
+
+# (configured precision, width of the forward input / field, width of the upstream gradient)
+DTYPE_SCHEDULE = [(32, 'lo', 'lo'), (32, 'hi', 'hi'), (32, 'lo', 'hi'), (32, 'hi', 'lo'),
+                  (64, 'lo', 'lo'), (64, 'lo', 'hi'), (64, 'hi', 'lo')]
+ALT_LAYOUTS = ('F', 'strided', 'reversed')
+
+
+class Tag:
+    """One configuration of a linear plan: which map, under which precision / dtypes / layouts, how to key a failure."""
+
+    def __init__(self, name, map_id='A', ref=None, prec=64, xdt=None, ydt=None, xlay='C', ylay='C', rtol=RT_LIN,
+                 key=None, sfx='', mon='adjoint', rep='repeat-call', law=True):
+        self.name, self.map_id, self.ref, self.prec = name, map_id, ref, prec
+        self.xdt, self.ydt, self.xlay, self.ylay, self.rtol = xdt, ydt, xlay, ylay, rtol
+        self.key, self.sfx, self.mon, self.rep, self.law = key, sfx, mon, rep, law
+
+
+# ('renew', kind, idx): the live argument object of that slot is overwritten in place with new random numbers, so the
+# next call sees the same array object holding other values
+PLAN_PLAIN = [('f', 0, 'base'), ('b', 0, 'base'), ('f', 1, 'base'), ('b', 1, 'base'), ('b', 0, 'base'), ('f', 0, 'base'),
+              ('renew', 'b', 0), ('b', 0, 'base'), ('renew', 'f', 0), ('f', 0, 'base')]
+PLAN_BFIRST = [('b', 0, 'base'), ('f', 0, 'base'), ('b', 1, 'base'), ('b', 0, 'base'), ('f', 1, 'base'),
+               ('renew', 'f', 1), ('f', 1, 'base'), ('renew', 'b', 1), ('b', 1, 'base')]
+LIN_VARIANTS = ('plain', 'backprop-first', 'layouts', 'dtypes')
+
+
+def lin_variant(row, variant, xkind, ykind, narrow_first=False):
+    """Plan and tags of one of the generic call-plan variants -> (plan, tags, exact32).
+
+    narrow_first: the single-precision / mixed schedule runs *before* the first double-precision call of the case
+    (a warm-up that fills whatever the routines cache); the double-precision pair is still judged at full tolerance."""
+    R = KEY_ROUTINE.get(row, row)
+    tags = {'base': Tag('base')}
+    if variant == 'plain':
+        return list(PLAN_PLAIN), tags, False
+    if variant == 'backprop-first':
+        return list(PLAN_BFIRST), tags, False
+    plan = [('f', 0, 'base'), ('b', 0, 'base')]
+    if variant == 'layouts':
+        for lay in ALT_LAYOUTS:
+            t = Tag('layout:' + lay, ref='base', xlay=lay, ylay=lay, key=f'C06/{R}/layout:{lay}', mon='layout')
+            tags[t.name] = t
+            plan += [('b', 0, t.name), ('f', 0, t.name)]
+        return plan, tags, False
+    if variant == 'dtypes':
+        narrow = []
+        for prec, xl, yl in DTYPE_SCHEDULE:
+            xdt, ydt = _dt(xkind, xl), _dt(ykind, yl)
+            name = f'{prec}/{xdt}/{ydt}'
+            tags[name] = Tag(name, map_id=name, prec=prec, xdt=xdt, ydt=ydt, rtol=RT_F32, key=f'C06/{R}/dtypes:{name}',
+                             mon='precision')
+            narrow += [('f', 0, name), ('b', 0, name)]
+        tags['after32'] = Tag('after32', ref='base', sfx='/after-float32', mon='history')
+        plan = (narrow + plan) if narrow_first else (plan + narrow)
+        plan += [('b', 1, 'after32'), ('f', 1, 'after32')]
+        return plan, tags, True
+    raise ValueError(variant)
+
+
 class Lin:
-    """A linear case: forward A, companion B claimed to be A^H."""
+    """A linear case: forward A, companion B claimed to be A^H, exercised by a plan of calls."""
     kind = 'linear'
 
-    def __init__(self, fwd, bwd, xshape, yshape, xkind='c', ykind='c', nprobe=2, rtol=RT_LIN, fwd_name=None):
+    def __init__(self, fwd, bwd, xshape, yshape, xkind='c', ykind='c', fwd_name=None, plan=None, tags=None,
+                 tagged=False, fresh=None, exact32=False):
         self.fwd, self.bwd, self.xshape, self.yshape = fwd, bwd, tuple(xshape), tuple(yshape)
-        self.xkind, self.ykind, self.nprobe, self.rtol, self.fwd_name = xkind, ykind, nprobe, rtol, fwd_name
+        self.xkind, self.ykind, self.fwd_name = xkind, ykind, fwd_name
+        self.plan = plan if plan is not None else list(PLAN_PLAIN)
+        self.tags = tags if tags is not None else {'base': Tag('base')}
+        self.tagged, self.fresh, self.exact32 = tagged, fresh, exact32
+
+    def vary(self, row, variant, rng=None):
+        first = bool(rng.integers(2)) if (rng is not None and variant == 'dtypes') else False
+        self.plan, self.tags, self.exact32 = lin_variant(row, variant, self.xkind, self.ykind, narrow_first=first)
+        return self
+
+
+class Twin:
+    """The same (forward, backprop) under another configuration; judged against the validated double-precision result."""
+
+    def __init__(self, label, f, vjp, key, rtol, mon):
+        self.label, self.f, self.vjp, self.key, self.rtol, self.mon = label, f, vjp, key, rtol, mon
+
+
+def config_twins(row, f, vjp, xkind, gkind, which):
+    """Twins of closures f(x), vjp(x, g) that accept any dtype / layout: precision schedule or layouts."""
+    R = KEY_ROUTINE.get(row, row)
+    out = []
+
+    def wrap(prec, xdt, gdt, lay):
+        def f_t(x):
+            with precision(prec):
+                return f(relayout(cast(x, xdt), lay))
+
+        def v_t(x, g):
+            with precision(prec):
+                return vjp(relayout(cast(x, xdt), lay), relayout(cast(g, gdt), lay))
+        return f_t, v_t
+    if which == 'dtypes':
+        for prec, xl, gl in DTYPE_SCHEDULE:
+            xdt, gdt = _dt(xkind, xl), _dt(gkind, gl)
+            f_t, v_t = wrap(prec, xdt, gdt, 'C')
+            out.append(Twin(f'{prec}/{xdt}/{gdt}', f_t, v_t, f'C06/{R}/dtypes:{prec}/{xdt}/{gdt}', RT_F32_NL, 'precision'))
+    else:
+        for lay in ALT_LAYOUTS:
+            f_t, v_t = wrap(64, None, None, lay)
+            out.append(Twin('layout:' + lay, f_t, v_t, f'C06/{R}/layout:{lay}', RT_LIN, 'layout'))
+    return out
 
 
 class Vjp:
     """A non-linear case: forward f at x0, companion vjp(x0, gbar) claimed to be J^H gbar."""
     kind = 'vjp'
 
-    def __init__(self, f, vjp, x0, gkind='r', xkind='r', h=1e-2, nprobe=2, gshape=None):
+    def __init__(self, f, vjp, x0, gkind='r', xkind='r', h=1e-2, nprobe=2, gshape=None, twins=(), after32=False,
+                 twin_scale=None, repeat=True, warm=False):
         self.f, self.vjp, self.x0, self.gkind, self.xkind, self.h, self.nprobe, self.gshape = f, vjp, x0, gkind, xkind, h, nprobe, gshape
+        self.twins, self.after32, self.twin_scale, self.repeat, self.warm = list(twins), after32, twin_scale, repeat, warm
 
 
 class Pointwise:
     """An activation node: backprop(x) claimed to be d forward / dx elementwise."""
     kind = 'pointwise'
 
-    def __init__(self, node, x0, h):
-        self.node, self.x0, self.h = node, x0, h
+    def __init__(self, node, x0, h, prec=64, xdt=None, lay='C', key=None, mon='pointwise'):
+        self.node, self.x0, self.h, self.prec, self.xdt, self.lay, self.key, self.mon = node, x0, h, prec, xdt, lay, key, mon
 
 
 class Cost:
     """A cost function returning (cost, gradient)."""
     kind = 'cost'
 
-    def __init__(self, fn, x0, h, nprobe=2):
-        self.fn, self.x0, self.h, self.nprobe = fn, x0, h, nprobe
+    def __init__(self, fn, x0, h, nprobe=2, twins=(), big=False):
+        self.fn, self.x0, self.h, self.nprobe, self.twins, self.big = fn, x0, h, nprobe, list(twins), big
+
+
+class _OutOfDomain(Exception):
+    pass
 
 
 # ============================================================================================ the harness
+class _Call:
+    __slots__ = ('kind', 'idx', 'tag', 'snap', 'res', 'order')
+
+    def __init__(self, kind, idx, tag, snap, res, order):
+        self.kind, self.idx, self.tag, self.snap, self.res, self.order = kind, idx, tag, snap, res, order
+
+
 class Harness:
     def __init__(self, ctx):
         self.ctx = ctx
         self.roundoff = {}
+        self.roundoff32 = {}
 
-    def _ro(self, row, rel):
-        if rel == rel and rel < 1e-3:
-            self.roundoff[row] = max(self.roundoff.get(row, 0.0), rel)
+    def _ro(self, row, rel, narrow=False):
+        d = self.roundoff32 if narrow else self.roundoff
+        if rel == rel and rel < 1e-2:
+            d[row] = max(d.get(row, 0.0), rel)
 
     def key(self, row, cls):
         # the Wavefront methods of the fixed-sampling / mask-and-back backprops are thin wrappers: they are monitored
@@ -122,7 +278,8 @@ class Harness:
         ctx = self.ctx
         desc = dict(desc)
         desc['row'] = row
-        desc['class'] = f'{row}:{cls}' + (f'[{desc["detail"]}]' if 'detail' in desc else '')
+        desc['class'] = f'{row}:{cls}' + (f'[{desc["detail"]}]' if 'detail' in desc else '') \
+            + (f'{{{desc["variant"]}}}' if 'variant' in desc else '')
         key = self.key(row, cls)
         rng = np.random.default_rng(desc['sub'])
         try:
@@ -136,55 +293,159 @@ class Harness:
         trivial = fn(row, key, desc, case, rng)
         ctx.case(desc, nontrivial=not trivial)
 
-    # ---------------------------------------------------------------- linear: adjoint identity
+    def _modified(self, row, what):
+        self.ctx.event(f'argument-modified-in-place:{row}:{what}')
+
+    # ---------------------------------------------------------------- linear: adjoint identity over a plan of calls
     def check_linear(self, row, key, desc, c, rng):
         ctx = self.ctx
-        mon = 'adjoint:' + row
-        probes = []
-        trivial = False
-        for _ in range(c.nprobe):
-            x = draw(rng, c.xshape, c.xkind)
-            y = draw(rng, c.yshape, c.ykind)
-            x0, y0 = x.copy(), y.copy()
+        tags = c.tags
+        base_arrays = {}
+        live = {}
+
+        def base_arr(kind, idx):
+            k = (kind, idx)
+            if k not in base_arrays:
+                a = draw(rng, c.xshape if kind == 'f' else c.yshape, c.xkind if kind == 'f' else c.ykind)
+                base_arrays[k] = f32_exact(a) if c.exact32 else a
+            return base_arrays[k]
+
+        def arg_for(kind, idx, tag):
+            dt, lay = (tag.xdt, tag.xlay) if kind == 'f' else (tag.ydt, tag.ylay)
+            k = (kind, idx, dt, lay)
+            if k not in live:        # one object per (array, dtype, layout): re-used by every later call that asks for it
+                live[k] = relayout(cast(base_arr(kind, idx), dt), lay)
+            return live[k]
+
+        def vkey_of(tag, k):
+            v = tag.key if tag.key else key + tag.sfx
+            return v + ('/' + tag.rep if k > 0 else '')
+
+        calls = []
+        nb = {}
+        for op in c.plan:
+            if op[0] == 'do':
+                op[1]()
+                continue
+            if op[0] == 'renew':
+                _, kind, idx = op
+                fresh_vals = draw(rng, c.xshape if kind == 'f' else c.yshape, c.xkind if kind == 'f' else c.ykind)
+                for (kk, ii, dt, lay), obj in live.items():
+                    if kk == kind and ii == idx:
+                        obj[...] = cast(fresh_vals, dt)
+                continue
+            kind, idx, tname = op
+            tag = tags[tname]
+            arg = arg_for(kind, idx, tag)
+            snap = np.array(arg, copy=True)
+            fn = c.fwd if kind == 'f' else c.bwd
+            k = nb.get(tname, 0)
             try:
-                Ax = np.asarray(c.fwd(x))
-            except _OutOfDomain as e:
-                ctx.skip(f'{row}: {e}')
-                return True
-            except Exception as e:   # the forward itself does not run on this in-domain input: no map to differentiate
-                fk = f'C06/{c.fwd_name or row}/{key.split("/", 2)[2]}/forward-raises:{type(e).__name__}'
-                ctx.observe(mon)
-                ctx.violation(fk, f'{c.fwd_name or row}: the forward raises {type(e).__name__} ({str(e)[:120]}) on an '
-                              'in-domain input, so the node has no gradient there', desc, exception=repr(e)[:300])
-                return False
-            try:
-                Ahy = np.asarray(c.bwd(y))
+                with precision(tag.prec):
+                    res = fn(arg, tname) if c.tagged else fn(arg)
+                res = np.array(res, copy=True)
             except _OutOfDomain as e:
                 ctx.skip(f'{row}: {e}')
                 return True
             except Exception as e:
+                mon = f'{tag.mon if k == 0 else "history"}:{row}'
                 ctx.observe(mon)
-                ctx.violation(f'{key}/raises:{type(e).__name__}', f'{row} raises {type(e).__name__}: {str(e)[:160]}',
-                              desc, exception=repr(e)[:300])
+                vk = vkey_of(tag, k if kind == 'b' else 0)
+                if kind == 'f':   # the forward itself does not run on this in-domain input: no map to differentiate
+                    vk = f'C06/{c.fwd_name or row}/{vk.split("/", 2)[2]}/forward-raises:{type(e).__name__}'
+                    ctx.violation(vk, f'{c.fwd_name or row}: the forward raises {type(e).__name__} ({str(e)[:120]}) on an '
+                                  'in-domain input, so the node has no gradient there', desc, exception=repr(e)[:300],
+                                  configuration=tname)
+                else:
+                    ctx.violation(f'{vk}/raises:{type(e).__name__}', f'{row} raises {type(e).__name__}: {str(e)[:160]}',
+                                  desc, exception=repr(e)[:300], configuration=tname, call=len(calls))
                 return False
-            if Ahy.shape != x.shape:
-                ctx.observe(mon)
-                ctx.violation(key + '/shape', f'{row}: gradient has shape {Ahy.shape}, the forward input has {x.shape}', desc)
-                return False
-            probes.append((x0, y0, Ax, Ahy))
-        nA = max(norm(Ax) / max(norm(x), 1e-300) for x, y, Ax, Ahy in probes)
-        if nA == 0.0:
-            trivial = True
-        for x, y, Ax, Ahy in probes:
-            lhs = inner(y, Ax)
-            rhs = inner(Ahy, x)
-            scale = norm(x) * norm(y) * nA
-            if nA == 0.0:     # the zero map: its adjoint is the zero map
-                scale = norm(x) * norm(y)
-            ok = ctx.close(mon, rhs, lhs, key, f'{row} is not the adjoint of its forward: <ybar,Ax> != <backprop(ybar),x>',
-                           desc, rtol=c.rtol, scale=scale, lhs=complex(lhs), rhs=complex(rhs))
-            if ok and scale > 0:
-                self._ro(row, abs(lhs - rhs) / scale)
+            if not same(arg, snap):
+                self._modified(row, 'forward-input' if kind == 'f' else 'upstream-gradient')
+            if kind == 'b':
+                nb[tname] = k + 1
+                if res.shape != c.xshape:
+                    ctx.observe(f'{tag.mon}:{row}')
+                    ctx.violation(vkey_of(tag, k) + '/shape', f'{row}: gradient has shape {res.shape}, the forward input '
+                                  f'has {c.xshape}', desc, configuration=tname)
+                    return False
+            elif res.shape != c.yshape:
+                ctx.skip(f'{row}: forward output shape differs from the declared one')
+                return True
+            calls.append(_Call(kind, idx, tag, snap, res, len(calls)))
+
+        fcalls = [q for q in calls if q.kind == 'f']
+        bcalls = [q for q in calls if q.kind == 'b']
+
+        def partners(tag):
+            return [f for f in fcalls if f.tag.map_id == tag.map_id and f.tag.name in (tag.name, tag.ref)]
+
+        def gain(tag):
+            fs = partners(tag)
+            return max((norm(f.res) / max(norm(f.snap), 1e-300) for f in fs), default=0.0)
+
+        trivial = gain(tags['base']) == 0.0 and tags['base'].law
+        failed = set()
+        seen = {}
+        kth = {}
+        for b in bcalls:
+            kth[id(b)] = seen.get(b.tag.name, 0)
+            seen[b.tag.name] = kth[id(b)] + 1
+        # the plain double-precision configuration is judged first: when it fails the case is reported under the class key
+        # only, whatever the other configurations of the plan do
+        for b in sorted(bcalls, key=lambda q: q.tag.name != 'base'):
+            tag = b.tag
+            k = kth[id(b)]
+            if 'base' in failed:
+                break
+            if tag.name in failed or not tag.law:
+                continue
+            vk = vkey_of(tag, k)
+            mon = f'{tag.mon if k == 0 else "history"}:{row}'
+            nA = gain(tag)
+            for f in partners(tag):
+                lhs = inner(b.snap, f.res)
+                rhs = inner(b.res, f.snap)
+                scale = norm(f.snap) * norm(b.snap) * (nA if nA > 0 else 1.0)   # the zero map: its adjoint is the zero map
+                rtol = max(tag.rtol, f.tag.rtol)
+                what = f'{row} is not the adjoint of its forward: <ybar,Ax> != <backprop(ybar),x>'
+                if tag.name != 'base' or k > 0:
+                    what += f' [configuration {tag.name}, backprop call {k + 1} of that configuration in the plan ' \
+                            f'{desc.get("variant", "")}]'
+                ok = ctx.close(mon, rhs, lhs, vk, what, desc, rtol=rtol, scale=scale, lhs=complex(lhs), rhs=complex(rhs),
+                               configuration=tag.name, backprop_call=b.order, forward_call=f.order)
+                if ok and scale > 0:
+                    self._ro(row, abs(lhs - rhs) / scale, narrow=rtol > RT_LIN)
+                if not ok:
+                    failed.add(tag.name)
+                    break
+
+        # a used object against a brand-new one (same call, same numbers)
+        if c.fresh is not None and 'base' not in failed:
+            last = {}
+            for b in bcalls:
+                last[b.tag.name] = b
+            for tname, b in last.items():
+                tag = b.tag
+                if tname in failed:
+                    continue
+                k = seen.get(tname, 1) - 1
+                try:
+                    fwd2, bwd2 = c.fresh()
+                    fs = [f for f in fcalls if f.tag.name == tname] or [f for f in fcalls if f.tag.map_id == tag.map_id]
+                    with precision(tag.prec):
+                        if fs:
+                            fwd2(np.array(fs[-1].snap, copy=True), tname) if c.tagged else fwd2(np.array(fs[-1].snap, copy=True))
+                        ref = bwd2(np.array(b.snap, copy=True), tname) if c.tagged else bwd2(np.array(b.snap, copy=True))
+                    ref = np.array(ref, copy=True)
+                except Exception:
+                    ctx.skip(f'{row}: the brand-new reference object could not be driven')
+                    continue
+                sc = float(np.max(np.abs(ref))) if ref.size else 0.0
+                ctx.close(f'fresh-object:{row}', b.res, ref, vkey_of(tag, k),
+                          f'{row}: an object that has been used before returns another gradient than a brand-new object given '
+                          f'the same call [configuration {tname}]', desc, rtol=max(tag.rtol if tag.rtol > RT_LIN else 0.0, RT_SAME),
+                          scale=sc, configuration=tname)
         return trivial
 
     # ---------------------------------------------------------------- non-linear: directional derivative
@@ -193,46 +454,67 @@ class Harness:
         num, settle = richardson_directional(cost_along, 1.0)
         if not np.isfinite(num) or not (settle <= SETTLE * scale):
             ctx.skip(f'{row}: richardson extrapolants disagree > 1e-7 (non-smooth or round-off dominated point)')
-            return None
+            return None, num
         ok = ctx.close(mon, analytic, num, key, what, desc, rtol=RT_DIR, scale=scale,
                        analytic=float(np.real(analytic)), numeric=float(num))
         if ok and scale > 0:
             self._ro(row, abs(float(np.real(analytic)) - num) / scale)
-        return ok
+        return ok, num
+
+    def _raised(self, mon, row, key, desc, e, **detail):
+        self.ctx.observe(mon)
+        self.ctx.violation(f'{key}/raises:{type(e).__name__}', f'{row} raises {type(e).__name__}: {str(e)[:160]}',
+                           desc, exception=repr(e)[:300], **detail)
 
     def check_vjp(self, row, key, desc, c, rng):
         ctx = self.ctx
         mon = 'dirderiv:' + row
         x0 = c.x0
+        xs = np.array(x0, copy=True)          # the value of the input: every reference is computed from this snapshot
         try:
             y0 = np.asarray(c.f(x0))
         except _OutOfDomain as e:
             ctx.skip(f'{row}: {e}')
             return True
+        if c.warm:
+            # the narrow configurations run once *before* the first double-precision backprop (whatever they cache is in
+            # place when the judged call is made); what they return is judged further down
+            gw = draw(rng, y0.shape if c.gshape is None else c.gshape, c.gkind)
+            for t in c.twins:
+                try:
+                    t.vjp(xs, gw)
+                except Exception:
+                    pass
         trivial = True
+        good = None                           # (g object, its value, d, numeric derivative, scale, xbar) of the last passing probe
         for _ in range(c.nprobe):
             g = draw(rng, y0.shape if c.gshape is None else c.gshape, c.gkind)
             d = draw(rng, x0.shape, c.xkind)
             d *= c.h / max(np.max(np.abs(d)), 1e-300)        # largest per-sample step = h (in the input's own units)
+            gs = np.array(g, copy=True)
             try:
-                xbar = np.asarray(c.vjp(x0, g.copy()))
+                xbar = np.array(c.vjp(x0, g), copy=True)
             except _OutOfDomain as e:
                 ctx.skip(f'{row}: {e}')
                 return True
             except Exception as e:
-                ctx.observe(mon)
-                ctx.violation(f'{key}/raises:{type(e).__name__}', f'{row} raises {type(e).__name__}: {str(e)[:160]}',
-                              desc, exception=repr(e)[:300])
+                self._raised(mon, row, key, desc, e)
                 return False
+            if not same(g, gs):
+                self._modified(row, 'upstream-gradient')
+                g = np.array(gs, copy=True)
+            if not same(x0, xs):
+                self._modified(row, 'forward-input')
+                x0[...] = xs
             if xbar.shape != x0.shape:
                 ctx.observe(mon)
                 ctx.violation(key + '/shape', f'{row}: gradient has shape {xbar.shape}, the forward input has {x0.shape}', desc)
                 return False
 
-            def cost_along(t):
-                return float(np.real(inner(g, c.f(x0 + t * d))))
-            Jd = (np.asarray(c.f(x0 + d)) - np.asarray(c.f(x0 - d))) / 2
-            scale = norm(g) * norm(Jd)
+            def cost_along(t, gs=gs, d=d):
+                return float(np.real(inner(gs, c.f(xs + t * d))))
+            Jd = (np.asarray(c.f(xs + d)) - np.asarray(c.f(xs - d))) / 2
+            scale = norm(gs) * norm(Jd)
             if scale == 0.0:
                 ctx.skip(f'{row}: zero response J d')
                 continue
@@ -243,26 +525,90 @@ class Harness:
                 continue
             trivial = False
             analytic = np.real(inner(xbar, d))
-            self._directional(mon, row, key, desc, cost_along, analytic, scale,
-                              f'{row}: Re<backprop(gbar),d> is not the directional derivative of Re<gbar,forward(x)>')
+            ok, num = self._directional(mon, row, key, desc, cost_along, analytic, scale,
+                                        f'{row}: Re<backprop(gbar),d> is not the directional derivative of Re<gbar,forward(x)>')
+            if ok is False:
+                return trivial
+            if ok:
+                good = (g, gs, d, num, scale, xbar)
+        if good is None:
+            return trivial
+        g, gs, d, num, scale, xbar = good
+        hmon = 'history:' + row
+
+        def again(sfx, what):
+            """The same call once more, with the same argument objects, against the reference already measured."""
+            try:
+                xb = np.array(c.vjp(x0, g), copy=True)
+            except Exception as e:
+                self._raised(hmon, row, key + sfx, desc, e)
+                return False
+            if not same(g, gs):
+                g[...] = gs
+            if not same(x0, xs):
+                x0[...] = xs
+            if xb.shape != xs.shape:
+                ctx.observe(hmon)
+                ctx.violation(key + sfx + '/shape', f'{row}: gradient has shape {xb.shape}, the forward input has {xs.shape}', desc)
+                return False
+            return ctx.close(hmon, np.real(inner(xb, d)), num, key + sfx, what, desc, rtol=RT_DIR, scale=scale)
+
+        if c.repeat:
+            if not again('/repeat-call', f'{row}: a second call with the same argument objects no longer returns the '
+                         'directional derivative that the first call returned'):
+                return trivial
+        sc0 = float(np.max(np.abs(xbar)))
+        for t in c.twins:
+            tmon = f'{t.mon}:{row}'
+            try:
+                yt = np.asarray(t.f(xs))
+            except Exception:
+                ctx.skip(f'{row}: the forward does not run in configuration {t.label.split(":")[0]}')
+                continue
+            if yt.shape != y0.shape or not (norm(np.asarray(yt, dtype=complex) - y0) <= FWD_F32 * norm(y0)):
+                ctx.skip(f'{row}: forward of a narrow configuration differs from the double-precision forward by > 1e-4')
+                continue
+            try:
+                xt = np.array(t.vjp(xs, gs), copy=True)
+            except Exception as e:
+                self._raised(tmon, row, t.key, desc, e, configuration=t.label)
+                continue
+            if xt.shape != xs.shape:
+                ctx.observe(tmon)
+                ctx.violation(t.key + '/shape', f'{row}: gradient has shape {xt.shape}, the forward input has {xs.shape} '
+                              f'[configuration {t.label}]', desc)
+                continue
+            sc = sc0 if c.twin_scale is None else max(sc0, float(c.twin_scale(gs, xbar)))
+            ok = ctx.close(tmon, xt, xbar, t.key, f'{row}: in configuration {t.label} (precision/field dtype/gradient dtype, or '
+                           'memory layout) the gradient differs from the validated double-precision gradient of the same numbers',
+                           desc, rtol=t.rtol, scale=sc, configuration=t.label)
+            if ok and sc > 0:
+                self._ro(row, float(np.max(np.abs(np.asarray(xt, dtype=complex) - xbar))) / sc, narrow=t.rtol > RT_LIN)
+        if c.after32:
+            again('/after-float32', f'{row}: after the same objects were used in single precision the double-precision call '
+                  'no longer returns the directional derivative')
         return trivial
 
     def check_pointwise(self, row, key, desc, c, rng):
         ctx = self.ctx
-        mon = 'pointwise:' + row
-        x = c.x0.copy()
-        keep = x.copy()
+        mon = f'{c.mon}:{row}'
+        key = c.key or key
+        narrow = c.prec == 32 or c.xdt == 'f32'
+        x = relayout(cast(c.x0, c.xdt), c.lay)
+        keep = np.array(x, copy=True)
         try:
-            got = np.asarray(c.node.backprop(x))
+            with precision(c.prec):
+                got = np.array(c.node.backprop(x), copy=True)
+                got2 = np.array(c.node.backprop(x), copy=True)
         except Exception as e:
-            ctx.observe(mon)
-            ctx.violation(f'{key}/raises:{type(e).__name__}', f'{row} raises {type(e).__name__}: {str(e)[:160]}', desc,
-                          exception=repr(e)[:300])
+            self._raised(mon, row, key, desc, e)
             return False
-        ctx.require('no-input-mutation:' + row, np.array_equal(x, keep), key + '/mutates-input',
+        ctx.require('no-input-mutation:' + row, same(x, keep), key + '/mutates-input',
                     f'{row} modifies the array it is given', desc)
         # reference: Richardson central differences where they are well conditioned; the complex-step derivative
-        # (no subtractive cancellation) everywhere once it has been validated against Richardson on those elements
+        # (no subtractive cancellation) everywhere once it has been validated against Richardson on those elements;
+        # always computed in double precision from the value the argument had
+        keep = np.asarray(keep, dtype=float)
         f0 = np.abs(np.asarray(c.node.forward(keep)))
         rich, settle = richardson_elementwise(c.node.forward, keep, c.h)
         scale = float(np.max(np.abs(rich))) if rich.size else 0.0
@@ -288,37 +634,57 @@ class Harness:
             ctx.observe(mon)
             ctx.violation(key + '/shape', f'{row}: shape {got.shape} != {ref.shape}', desc)
             return False
-        ok = ctx.close(mon, got[use], ref[use], key, f'{row}(x) is not d forward/dx', desc, rtol=RT_DIR, scale=scale)
+        rtol = RT_F32_NL if narrow else RT_DIR
+        ok = ctx.close(mon, got[use], ref[use], key, f'{row}(x) is not d forward/dx', desc, rtol=rtol, scale=scale)
         if ok:
-            self._ro(row, float(np.max(np.abs(got[use] - ref[use]))) / scale)
+            self._ro(row, float(np.max(np.abs(got[use] - ref[use]))) / scale, narrow=narrow)
+            ctx.close('history:' + row, got2, got, key + '/repeat-call', f'{row}: a second call with the same array returns '
+                      'another derivative', desc, rtol=RT_SAME, scale=scale)
+            # the same array object holding other numbers, against a new array holding those numbers
+            x[...] = cast(np.asarray(keep)[..., ::-1] * 0.75 + 0.125, c.xdt) if x.ndim else cast(keep * 0.75 + 0.125, c.xdt)
+            try:
+                with precision(c.prec):
+                    got3 = np.array(c.node.backprop(x), copy=True)
+                    ref3 = np.array(c.node.backprop(np.array(x, copy=True)), copy=True)
+                ctx.close('history:' + row, got3, ref3, key + '/repeat-call', f'{row}: the same array object holding other numbers '
+                          'gets another derivative than a new array holding those numbers', desc, rtol=RT_SAME,
+                          scale=float(np.max(np.abs(ref3))) if ref3.size else 0.0)
+            except Exception as e:
+                self._raised('history:' + row, row, key + '/repeat-call', desc, e)
         return False
 
     def check_cost(self, row, key, desc, c, rng):
         ctx = self.ctx
         mon = 'dirderiv:' + row
         x0 = c.x0
-        keep = x0.copy()
+        keep = np.array(x0, copy=True)
         try:
             cost0, grad = c.fn(x0)
+            grad = np.array(grad, copy=True)
         except Exception as e:
-            ctx.observe(mon)
-            ctx.violation(f'{key}/raises:{type(e).__name__}', f'{row} raises {type(e).__name__}: {str(e)[:160]}', desc,
-                          exception=repr(e)[:300])
+            self._raised(mon, row, key, desc, e)
             return False
-        grad = np.asarray(grad)
+        if not same(x0, keep):
+            self._modified(row, 'model-data')
+            x0[...] = keep
         if grad.shape != x0.shape:
             ctx.observe(mon)
             ctx.violation(key + '/shape', f'{row}: gradient has shape {grad.shape}, the model input has {x0.shape}', desc)
             return False
         trivial = True
-        # reference-side scale |grad| |d|: plain central differences per coordinate (sizes are small)
-        gn = np.zeros(x0.size)
-        for j in range(x0.size):
-            e = np.zeros(x0.size)
-            e[j] = c.h
-            e = e.reshape(x0.shape)
-            gn[j] = (c.fn(keep + e)[0] - c.fn(keep - e)[0]) / (2 * c.h)
-        gnum = norm(gn)
+        if c.big:
+            # |grad| from a few directional derivatives of the returned cost (a per-coordinate loop is too long here)
+            gnum = hutchinson_norm(lambda dd: (c.fn(keep + c.h * dd)[0] - c.fn(keep - c.h * dd)[0]) / (2 * c.h), x0.shape, rng)
+        else:
+            # reference-side scale |grad| |d|: plain central differences per coordinate (sizes are small)
+            gn = np.zeros(x0.size)
+            for j in range(x0.size):
+                e = np.zeros(x0.size)
+                e[j] = c.h
+                e = e.reshape(x0.shape)
+                gn[j] = (c.fn(keep + e)[0] - c.fn(keep - e)[0]) / (2 * c.h)
+            gnum = norm(gn)
+        passed = True
         for _ in range(c.nprobe):
             d = rng.standard_normal(x0.shape)
             d *= c.h / max(np.max(np.abs(d)), 1e-300)
@@ -334,13 +700,43 @@ class Harness:
                 continue
             trivial = False
             analytic = float(np.sum(grad * d))
-            self._directional(mon, row, key, desc, cost_along, analytic, scale,
-                              f'{row}: returned gradient is not the gradient of the returned cost')
+            ok, _ = self._directional(mon, row, key, desc, cost_along, analytic, scale,
+                                      f'{row}: returned gradient is not the gradient of the returned cost')
+            if not ok:
+                passed = False
+        if trivial or not passed:
+            return trivial
+        # after all those calls with the same data / mask objects: the same call again must return the same pair
+        gsc = float(np.max(np.abs(grad)))
+        try:
+            cost1, grad1 = c.fn(x0)
+            ctx.close('history:' + row, np.append(np.ravel(grad1) / max(gsc, 1e-300), cost1 / max(abs(cost0), 1e-300)),
+                      np.append(np.ravel(grad) / max(gsc, 1e-300), cost0 / max(abs(cost0), 1e-300)), key + '/repeat-call',
+                      f'{row}: a later call with the same argument objects returns another (cost, gradient)', desc,
+                      rtol=RT_SAME, scale=1.0)
+        except Exception as e:
+            self._raised('history:' + row, row, key + '/repeat-call', desc, e)
+        for t in c.twins:
+            tmon = f'{t.mon}:{row}'
+            try:
+                ct, gt = t.f(keep)
+                gt = np.array(gt, copy=True)
+            except Exception as e:
+                self._raised(tmon, row, t.key, desc, e, configuration=t.label)
+                continue
+            if not (abs(ct - cost0) <= FWD_F32 * abs(cost0)):
+                ctx.skip(f'{row}: cost of a narrow configuration differs from the double-precision cost by > 1e-4')
+                continue
+            if gt.shape != grad.shape:
+                ctx.observe(tmon)
+                ctx.violation(t.key + '/shape', f'{row}: gradient has shape {gt.shape}, the model input has {grad.shape} '
+                              f'[configuration {t.label}]', desc)
+                continue
+            ok = ctx.close(tmon, gt, grad, t.key, f'{row}: in configuration {t.label} the gradient differs from the validated '
+                           'double-precision gradient of the same numbers', desc, rtol=t.rtol, scale=gsc, configuration=t.label)
+            if ok and gsc > 0:
+                self._ro(row, float(np.max(np.abs(gt - grad))) / gsc, narrow=t.rtol > RT_LIN)
         return trivial
-
-
-class _OutOfDomain(Exception):
-    pass
 
 
 # ============================================================================================ the table
@@ -370,6 +766,18 @@ def _rand_shape(rng, kind, lo, hi):
             return (a, b)
 
 
+def _big_shape(rng, kind, big, long):
+    """Numeric-regime classes: 'big' = a large array (either parity, square or mildly non-square),
+    'sliver' = extreme aspect ratio (1..3 samples one way, `long` the other)."""
+    if kind == 'big':
+        a = int(rng.integers(big // 2, big + 1))
+        b = a if rng.integers(2) else int(rng.integers(big // 2, big + 1))
+        return (a, b)
+    n = int(rng.integers(long // 2, long + 1))
+    w = int(rng.integers(1, 4))
+    return (w, n) if rng.integers(2) else (n, w)
+
+
 def _shift_of(rng, kind):
     if kind == '0':
         return (0, 0)
@@ -390,39 +798,90 @@ def _Q_of(rng, kind):
     return q
 
 
-def gen_mdft(ctx, rng, which, f32=False):
-    """mdft.dft2 <-> dft2_backprop, mdft.idft2 <-> idft2_backprop."""
-    from prysm.fttools import mdft
-    fwd = getattr(mdft, which)
-    bwd = getattr(mdft, which + '_backprop')
-    hi = ctx.pick(12, 28)
+def _np_scalars(v, how):
+    """The same numbers in another container class: numpy float64 / float32-representable scalars inside the tuple."""
+    if how == 0:
+        return v
+    if isinstance(v, tuple):
+        return tuple(np.float64(s) for s in v)
+    return np.float64(v)
+
+
+def gen_mdft(ctx, rng, which):
+    """mdft.dft2 <-> dft2_backprop, mdft.idft2 <-> idft2_backprop (module-level shared executor and private executors)."""
+    from prysm.fttools import mdft, MatrixDFTExecutor
+    hi = ctx.pick(12, 40)
     kinds = ['sq', 'nonsq', 'line']
     classes = [(a, b, q, s) for a in kinds for b in kinds for q in ('scalar', 'pair') for s in ('0', 'nz')]
-    reps = ctx.pick(18, 200)
+    # numeric regimes: large arrays and extreme aspect ratios, against each other and against ordinary shapes
+    regimes = [('big', 'big'), ('sliver', 'sliver'), ('big', 'sliver'), ('sliver', 'sq'), ('nonsq', 'big'), ('sliver', 'big')]
+    classes += [(a, b, q, s) for (a, b) in regimes for (q, s) in (('scalar', '0'), ('pair', 'nz'))]
+    nreg = 2 * len(regimes)
+    variants = LIN_VARIANTS + ('executor-history', 'private-executor')
+    reps = ctx.pick(24, 420)
+    big, long = ctx.pick(96, 320), ctx.pick(300, 2000)
     k = -1
     for rep in range(reps + 1):
-        for (ka, kb, kq, ks) in classes:
+        for ci, (ka, kb, kq, ks) in enumerate(classes):
+            regime = ci >= len(classes) - nreg
+            if regime and rep % ctx.pick(6, 4) != 1:
+                continue
             k += 1
             if not ctx.mine(k):
                 continue
-            if rep == 0:
-                sa = SHAPES_SMALL[ka][k % len(SHAPES_SMALL[ka])]
-                sb = SHAPES_SMALL[kb][(k // 3) % len(SHAPES_SMALL[kb])]
-            else:
-                sa, sb = _rand_shape(rng, ka, 2, hi), _rand_shape(rng, kb, 2, hi)
+
+            def shp(kind, j):
+                if kind in ('big', 'sliver'):
+                    return _big_shape(rng, kind, big, long)
+                if rep == 0:
+                    return SHAPES_SMALL[kind][(k // (1 if j == 0 else 3)) % len(SHAPES_SMALL[kind])]
+                return _rand_shape(rng, kind, 2, hi)
+            sa, sb = shp(ka, 0), shp(kb, 1)
             Q = _Q_of(rng, kq)
             shift = _shift_of(rng, ks)
             xk = 'r' if (k % 5 == 0) else 'c'
-            samples_int = (kb == 'sq' and k % 2 == 0)    # the int form of samples_out on the forward side
-            back_int = (ka == 'sq' and k % 4 < 2)        # the int form of the input-shape argument of the backprop
+            samples_int = (sb[0] == sb[1] and k % 2 == 0)    # the int form of samples_out on the forward side
+            back_int = (sa[0] == sa[1] and k % 4 < 2)        # the int form of the input-shape argument of the backprop
+            variant = variants[(rep + ci) % len(variants)]
+            if regime and variant == 'dtypes' and max(sa + sb) > 400:
+                variant = 'plain'
+            scal = (rep + ci // 2) % 3 == 2                   # numpy scalars instead of python numbers in Q / shift
             cls = f'{ka}->{kb}/Q:{kq}/shift:{ks}'
             desc = {'in': sa, 'out': sb, 'parity': shape_class(sa) + '>' + shape_class(sb), 'Q': Q, 'shift': shift,
-                    'x': xk, 'samples_as_int': [samples_int, back_int], 'sub': _subseed(rng)}
+                    'x': xk, 'samples_as_int': [samples_int, back_int], 'variant': variant, 'numpy_scalars': scal,
+                    'sub': _subseed(rng)}
 
-            def build(r, sa=sa, sb=sb, Q=Q, shift=shift, xk=xk, samples_int=samples_int, back_int=back_int):
+            def build(r, sa=sa, sb=sb, Q=Q, shift=shift, xk=xk, samples_int=samples_int, back_int=back_int,
+                      variant=variant, scal=scal):
                 so = sb[0] if samples_int else sb
                 si = sa[0] if back_int else sa
-                return Lin(lambda x: fwd(x, Q, so, shift), lambda y: bwd(y, Q, si, shift), sa, sb, xkind=xk)
+                Qb, shb = _np_scalars(Q, int(scal)), _np_scalars(shift, int(scal))   # the backprop gets the other container
+                ex = mdft if variant != 'private-executor' else MatrixDFTExecutor()
+                fwd = getattr(ex, which)
+                bwd = getattr(ex, which + '_backprop')
+                c = Lin(lambda x: fwd(x, Q, so, shift), lambda y: bwd(y, Qb, si, shb), sa, sb, xkind=xk)
+                if variant in LIN_VARIANTS:
+                    return c.vary('mdft.' + which + '_backprop', variant, r)
+                if variant == 'private-executor':
+                    # a private executor whose first call is the backprop, against a brand-new one
+                    c.plan = list(PLAN_BFIRST)
+
+                    def fresh():
+                        e2 = MatrixDFTExecutor()
+                        return (lambda x: getattr(e2, which)(x, Q, so, shift)), \
+                               (lambda y: getattr(e2, which + '_backprop')(y, Qb, si, shb))
+                    c.fresh = fresh
+                    return c
+                # executor-history: the shared executor is emptied / asked for its size between the calls of one plan,
+                # and an unrelated transform of the other direction with the same geometry goes through it
+                other = 'idft2' if which == 'dft2' else 'dft2'
+
+                def unrelated():
+                    getattr(mdft, other)(np.ones(sa), Q, so, shift)
+                    getattr(mdft, other + '_backprop')(np.ones(sb), Qb, si, shb)
+                c.plan = [('f', 0, 'base'), ('do', mdft.clear), ('b', 0, 'base'), ('do', unrelated), ('b', 1, 'base'),
+                          ('do', mdft.nbytes), ('f', 1, 'base'), ('do', mdft.clear), ('b', 0, 'base'), ('f', 0, 'base')]
+                return c
             yield cls, desc, build
 
 
@@ -447,20 +906,33 @@ def _phys_shift(rng, kind, unit):
 def gen_ffs(ctx, rng, which, form):
     """focus_fixed_sampling / unfocus_fixed_sampling <-> their backprops; function and Wavefront forms."""
     from prysm import propagation as P
-    hi = ctx.pick(10, 24)
+    row = {('focus', 'function'): 'focus_fixed_sampling_backprop', ('focus', 'Wavefront'): 'Wavefront.focus_fixed_sampling_backprop',
+           ('unfocus', 'function'): 'unfocus_fixed_sampling_backprop'}[(which, form)]
+    hi = ctx.pick(10, 32)
     kinds = ['sq', 'nonsq']
     rel = ['equal', 'unequal']
     classes = [(ka, r, ks) for ka in kinds for r in rel for ks in ('0', 'nz')]
-    reps = ctx.pick(72, 900)
+    classes += [('big', 'unequal', 'nz'), ('sliver', 'unequal', '0'), ('sliver', 'equal', 'nz'), ('big', 'equal', '0')]
+    variants = LIN_VARIANTS + (('instance-history',) if form == 'Wavefront' else ())
+    reps = ctx.pick(96, 4800)
+    big, long = ctx.pick(72, 256), ctx.pick(200, 1200)
     k = -1
     for rep in range(reps + 1):
-        for (ka, r, ks) in classes:
+        for ci, (ka, r, ks) in enumerate(classes):
+            regime = ka in ('big', 'sliver')
+            if regime and rep % ctx.pick(12, 8) != 1:
+                continue
             k += 1
             if not ctx.mine(k):
                 continue
-            pupil = SHAPES_SMALL[ka][k % len(SHAPES_SMALL[ka])] if rep == 0 else _rand_shape(rng, ka, 3, hi)
+            if regime:
+                pupil = _big_shape(rng, ka, big, long)
+            else:
+                pupil = SHAPES_SMALL[ka][k % len(SHAPES_SMALL[ka])] if rep == 0 else _rand_shape(rng, ka, 3, hi)
             if r == 'equal':
                 focal = pupil
+            elif regime:
+                focal = _big_shape(rng, ['big', 'sliver'][int(rng.integers(2))], big, long)
             else:
                 fk = ['sq', 'nonsq'][int(rng.integers(2))]
                 while True:
@@ -471,25 +943,51 @@ def gen_ffs(ctx, rng, which, form):
             # shift is "same units as output_dx": focal units (um) for focus, pupil units (mm) for unfocus
             shift = _phys_shift(rng, ks, fdx if which == 'focus' else dx)
             as_int = (k % 2 == 0)
+            variant = variants[(rep + ci) % len(variants)]
+            if regime and variant == 'dtypes' and max(pupil + focal) > 400:
+                variant = 'plain'
             cls = f'pupil:{ka}/focal:{r}/shift:{ks}'
             desc = {'pupil': pupil, 'focal': focal, 'dx': dx, 'wvl': wvl, 'efl': efl, 'fdx': fdx, 'shift': shift,
-                    'form': form, 'int_samples': as_int, 'sub': _subseed(rng)}
+                    'form': form, 'int_samples': as_int, 'variant': variant, 'sub': _subseed(rng)}
 
-            def build(r_, pupil=pupil, focal=focal, dx=dx, wvl=wvl, efl=efl, fdx=fdx, shift=shift, as_int=as_int):
+            def build(r_, pupil=pupil, focal=focal, dx=dx, wvl=wvl, efl=efl, fdx=fdx, shift=shift, as_int=as_int, variant=variant):
                 def smp(s):
                     return s[0] if (as_int and s[0] == s[1]) else s
                 if which == 'focus':
                     if form == 'function':
                         return Lin(lambda x: P.focus_fixed_sampling(x, dx, efl, wvl, fdx, smp(focal), shift=shift),
                                    lambda y: P.focus_fixed_sampling_backprop(y, dx, efl, wvl, fdx, smp(pupil), shift=shift),
-                                   pupil, focal)
-                    return Lin(lambda x: P.Wavefront(x, wvl, dx).focus_fixed_sampling(efl, fdx, smp(focal), shift=shift).data,
-                               lambda y: P.Wavefront(y, wvl, fdx, 'psf').focus_fixed_sampling_backprop(efl, dx, smp(pupil), shift=shift).data,
-                               pupil, focal)
+                                   pupil, focal).vary(row, variant, r_)
+                    if variant != 'instance-history':
+                        return Lin(lambda x: P.Wavefront(x, wvl, dx).focus_fixed_sampling(efl, fdx, smp(focal), shift=shift).data,
+                                   lambda y: P.Wavefront(y, wvl, fdx, 'psf').focus_fixed_sampling_backprop(efl, dx, smp(pupil), shift=shift).data,
+                                   pupil, focal).vary(row, variant, r_)
+                    # one pupil-plane and one focal-plane Wavefront instance serve every call of the plan: .data is
+                    # re-assigned, other geometries are propagated through the same instances in between
+                    wp, wf = P.Wavefront(np.zeros(pupil, dtype=complex), wvl, dx), P.Wavefront(np.zeros(focal, dtype=complex), wvl, fdx, 'psf')
+
+                    def fwd(x):
+                        wp.data = x
+                        return wp.focus_fixed_sampling(efl, fdx, smp(focal), shift=shift).data
+
+                    def bwd(y):
+                        wf.data = y
+                        return wf.focus_fixed_sampling_backprop(efl, dx, smp(pupil), shift=shift).data
+
+                    def elsewhere():
+                        wp.focus_fixed_sampling(efl * 1.5, fdx, (focal[0] + 1, focal[1] + 2), shift=(fdx, 0))
+                        wf.focus_fixed_sampling_backprop(efl * 0.75, dx, (pupil[0] + 2, pupil[1] + 1), shift=(0, -fdx))
+                        wf.copy().focus_fixed_sampling_backprop(efl, dx, smp(pupil))
+                    c = Lin(fwd, bwd, pupil, focal)
+                    c.plan = [('f', 0, 'base'), ('b', 0, 'base'), ('do', elsewhere), ('b', 1, 'base'), ('f', 1, 'base'),
+                              ('do', elsewhere), ('b', 0, 'base')]
+                    c.fresh = lambda: (lambda x: P.Wavefront(x, wvl, dx).focus_fixed_sampling(efl, fdx, smp(focal), shift=shift).data,
+                                       lambda y: P.Wavefront(y, wvl, fdx, 'psf').focus_fixed_sampling_backprop(efl, dx, smp(pupil), shift=shift).data)
+                    return c
                 # unfocus: forward maps focal -> pupil
                 return Lin(lambda x: P.unfocus_fixed_sampling(x, fdx, efl, wvl, dx, smp(pupil), shift=shift),
                            lambda y: P.unfocus_fixed_sampling_backprop(y, fdx, efl, wvl, dx, smp(focal), shift=shift),
-                           focal, pupil)
+                           focal, pupil).vary(row, variant, r_)
             yield cls, desc, build
 
 
@@ -505,22 +1003,43 @@ def _mask(rng, shape, kind):
     return m
 
 
+def _mask_plan(c, masks_equal):
+    """Plan for the mask rows: two masks A and B of the same shape alternate on the same argument objects
+    (A, B, A again); every pair is judged within its own mask.  `masks_equal` tells whether a parameter array was changed."""
+    c.tags = {'base': Tag('base'), 'B': Tag('B', map_id='B', sfx='/second-mask', mon='history'),
+              'A2': Tag('A2', ref='base', sfx='/first-mask-again', mon='history')}
+    c.tagged = True
+    c.plan = [('f', 0, 'base'), ('b', 0, 'base'), ('b', 0, 'B'), ('f', 0, 'B'), ('b', 1, 'A2'), ('f', 1, 'A2'),
+              ('b', 0, 'base'), ('do', masks_equal)]
+    return c
+
+
 def gen_tfb(ctx, rng, form):
     """to_fpm_and_back <-> to_fpm_and_back_backprop."""
     from prysm import propagation as P
-    hi = ctx.pick(9, 20)
+    row = 'to_fpm_and_back_backprop' if form == 'function' else 'Wavefront.to_fpm_and_back_backprop'
+    hi = ctx.pick(9, 28)
     classes = [(mk, r, ks) for mk in ('real', 'complex') for r in ('same', 'other') for ks in ('0', 'nz')]
-    reps = ctx.pick(72, 900)
+    variants = LIN_VARIANTS + ('mask-history',)
+    reps = ctx.pick(96, 4800)
+    big, long = ctx.pick(64, 200), ctx.pick(160, 900)
     k = -1
     for rep in range(reps + 1):
-        for (mk, r, ks) in classes:
+        for ci, (mk, r, ks) in enumerate(classes):
             k += 1
             if not ctx.mine(k):
                 continue
+            regime = rep % ctx.pick(12, 8) == 5          # every class also at a numeric-regime size
             pk = 'sq' if (k // 8) % 3 != 2 else 'nonsq'
-            pupil = SHAPES_SMALL[pk][k % len(SHAPES_SMALL[pk])] if rep == 0 else _rand_shape(rng, pk, 3, hi)
+            if regime:
+                pk = ['big', 'sliver'][(rep // 12 + ci) % 2]
+                pupil = _big_shape(rng, pk, big, long)
+            else:
+                pupil = SHAPES_SMALL[pk][k % len(SHAPES_SMALL[pk])] if rep == 0 else _rand_shape(rng, pk, 3, hi)
             if r == 'same':
                 ms = pupil
+            elif regime:
+                ms = _big_shape(rng, ['sliver', 'big'][(rep // 12 + ci) % 2], big, long)
             else:
                 while True:
                     ms = _rand_shape(rng, ['sq', 'nonsq'][int(rng.integers(2))], 3, hi + 4)
@@ -529,99 +1048,183 @@ def gen_tfb(ctx, rng, form):
             dx, wvl, efl, fdx = _focal_geometry(rng, pupil)
             shift = _phys_shift(rng, ks, fdx)
             more = (k % 3 == 0)
+            variant = variants[(rep + ci) % len(variants)]
+            if regime and variant == 'dtypes' and max(pupil + ms) > 400:
+                variant = 'plain'
             cls = f'{mk}-mask/{r}-shape/shift:{ks}'
             desc = {'pupil': pupil, 'mask': ms, 'mask_kind': mk, 'dx': dx, 'wvl': wvl, 'efl': efl, 'fdx': fdx, 'shift': shift,
-                    'form': form, 'return_more': more, 'sub': _subseed(rng)}
+                    'form': form, 'return_more': more, 'variant': variant, 'pupil_kind': pk, 'sub': _subseed(rng)}
 
-            def build(r_, pupil=pupil, ms=ms, mk=mk, dx=dx, wvl=wvl, efl=efl, fdx=fdx, shift=shift, more=more):
-                fpm = _mask(r_, ms, mk)
+            def build(r_, pupil=pupil, ms=ms, mk=mk, dx=dx, wvl=wvl, efl=efl, fdx=fdx, shift=shift, more=more, variant=variant):
+                masks = {'base': _mask(r_, ms, mk)}
 
                 def first(v):
                     return v[0] if more else v
-                if form == 'function':
-                    return Lin(lambda x: first(P.to_fpm_and_back(x, dx, efl, wvl, fpm, fdx, shift=shift, return_more=more)),
-                               lambda y: first(P.to_fpm_and_back_backprop(y, dx, wvl, efl, fpm, fdx, shift=shift, return_more=more)),
-                               pupil, pupil)
-                return Lin(lambda x: first(P.Wavefront(x, wvl, dx).to_fpm_and_back(efl, fpm, fdx, shift=shift, return_more=more)).data,
-                           lambda y: first(P.Wavefront(y, wvl, dx).to_fpm_and_back_backprop(efl, fpm, fdx, shift=shift, return_more=more)).data,
-                           pupil, pupil)
+
+                def fwd(x, t='base'):
+                    fpm = masks['B' if t == 'B' else 'base']
+                    if form == 'function':
+                        return first(P.to_fpm_and_back(x, dx, efl, wvl, fpm, fdx, shift=shift, return_more=more))
+                    return first(P.Wavefront(x, wvl, dx).to_fpm_and_back(efl, fpm, fdx, shift=shift, return_more=more)).data
+
+                def bwd(y, t='base'):
+                    fpm = masks['B' if t == 'B' else 'base']
+                    if form == 'function':
+                        return first(P.to_fpm_and_back_backprop(y, dx, wvl, efl, fpm, fdx, shift=shift, return_more=more))
+                    return first(P.Wavefront(y, wvl, dx).to_fpm_and_back_backprop(efl, fpm, fdx, shift=shift, return_more=more)).data
+                c = Lin(fwd, bwd, pupil, pupil)
+                if variant != 'mask-history':
+                    return c.vary(row, variant, r_)
+                masks['B'] = _mask(r_, ms, 'complex' if mk == 'real' else 'real')
+                keep = {n: m.copy() for n, m in masks.items()}
+
+                def masks_equal():
+                    if not all(same(masks[n], keep[n]) for n in masks):
+                        ctx.event(f'argument-modified-in-place:{row}:mask')
+                return _mask_plan(c, masks_equal)
             yield cls, desc, build
 
 
 def gen_babinet(ctx, rng):
     """Wavefront.babinet <-> Wavefront.babinet_backprop."""
     from prysm import propagation as P
-    hi = ctx.pick(9, 20)
+    row = 'Wavefront.babinet_backprop'
+    hi = ctx.pick(9, 28)
     classes = [(lk, mk, r) for lk in ('none', 'real', 'complex') for mk in ('real', 'complex') for r in ('same', 'other')]
-    reps = ctx.pick(48, 600)
+    variants = LIN_VARIANTS + ('mask-history',)
+    reps = ctx.pick(64, 1600)
+    big, long = ctx.pick(64, 200), ctx.pick(160, 900)
     k = -1
     for rep in range(reps + 1):
-        for (lk, mk, r) in classes:
+        for ci, (lk, mk, r) in enumerate(classes):
             k += 1
             if not ctx.mine(k):
                 continue
+            regime = rep % ctx.pick(12, 8) == 5
             pk = 'sq' if (k // 12) % 3 != 2 else 'nonsq'
-            pupil = SHAPES_SMALL[pk][k % len(SHAPES_SMALL[pk])] if rep == 0 else _rand_shape(rng, pk, 3, hi)
+            if regime:
+                pk = ['big', 'sliver'][(rep // 12 + ci) % 2]
+                pupil = _big_shape(rng, pk, big, long)
+            else:
+                pupil = SHAPES_SMALL[pk][k % len(SHAPES_SMALL[pk])] if rep == 0 else _rand_shape(rng, pk, 3, hi)
             if r == 'same':
                 ms = pupil
+            elif regime:
+                ms = _big_shape(rng, ['sliver', 'big'][(rep // 12 + ci) % 2], big, long)
             else:
                 while True:
                     ms = _rand_shape(rng, ['sq', 'nonsq'][int(rng.integers(2))], 3, hi + 4)
                     if ms != pupil:
                         break
             dx, wvl, efl, fdx = _focal_geometry(rng, pupil)
+            variant = variants[(rep + ci + ci // 5) % len(variants)]
+            if regime and variant == 'dtypes' and max(pupil + ms) > 400:
+                variant = 'plain'
             # the Lyot stop kind is crossed with every mask class (so a Lyot-specific defect shows up under the
             # otherwise clean real-mask/same-shape key); it is recorded in the descriptor, not in the key
             cls = f'{mk}-mask/{r}-shape'
             desc = {'pupil': pupil, 'mask': ms, 'mask_kind': mk, 'lyot': lk, 'detail': f'lyot:{lk}', 'dx': dx, 'wvl': wvl, 'efl': efl, 'fdx': fdx,
-                    'sub': _subseed(rng)}
+                    'variant': variant, 'pupil_kind': pk, 'sub': _subseed(rng)}
 
-            def build(r_, pupil=pupil, ms=ms, mk=mk, lk=lk, dx=dx, wvl=wvl, efl=efl, fdx=fdx):
-                fpm = _mask(r_, ms, mk)
-                lyot = None if lk == 'none' else _mask(r_, pupil, lk)
-                return Lin(lambda x: P.Wavefront(x, wvl, dx).babinet(efl, lyot, fpm, fdx).data,
-                           lambda y: P.Wavefront(y.copy(), wvl, dx).babinet_backprop(efl, lyot, fpm, fdx).data,
-                           pupil, pupil)
+            def build(r_, pupil=pupil, ms=ms, mk=mk, lk=lk, dx=dx, wvl=wvl, efl=efl, fdx=fdx, variant=variant):
+                masks = {'base': _mask(r_, ms, mk)}
+                lyots = {'base': None if lk == 'none' else _mask(r_, pupil, lk)}
+
+                def fwd(x, t='base'):
+                    n = 'B' if t == 'B' else 'base'
+                    return P.Wavefront(x, wvl, dx).babinet(efl, lyots[n], masks[n], fdx).data
+
+                def bwd(y, t='base'):
+                    n = 'B' if t == 'B' else 'base'
+                    return P.Wavefront(y, wvl, dx).babinet_backprop(efl, lyots[n], masks[n], fdx).data
+                c = Lin(fwd, bwd, pupil, pupil)
+                if variant != 'mask-history':
+                    return c.vary(row, variant, r_)
+                masks['B'] = _mask(r_, ms, 'complex' if mk == 'real' else 'real')
+                lyots['B'] = _mask(r_, pupil, 'complex' if lk != 'complex' else 'real')
+                keep = [(d_, n, np.array(d_[n], copy=True)) for d_ in (masks, lyots) for n in d_ if d_[n] is not None]
+
+                def masks_equal():
+                    if not all(same(d_[n], v) for d_, n, v in keep):
+                        ctx.event(f'argument-modified-in-place:{row}:mask-or-lyot')
+                return _mask_plan(c, masks_equal)
             yield cls, desc, build
+
+
+VJP_VARIANTS = ('plain', 'dtypes', 'layouts', 'history')
+
+
+def _vjp_shape(ctx, rng, i, hi):
+    """Shape classes of the elementwise non-linear rows: sq / nonsq / line, and every 12th case a numeric regime."""
+    if i % 12 == 7:
+        kind = ['big', 'sliver'][(i // 12) % 2]
+        return kind, _big_shape(rng, kind, ctx.pick(128, 400), ctx.pick(2048, 16384))
+    kind = ['sq', 'nonsq', 'line'][i % 3]
+    return kind, _rand_shape(rng, kind, 2, hi)
 
 
 def gen_intensity(ctx, rng):
     """Wavefront.intensity <-> intensity_backprop."""
     from prysm import propagation as P
-    n = ctx.share(ctx.pick(720, 9600))
+    row = 'Wavefront.intensity_backprop'
+    n = ctx.share(ctx.pick(720, 20000))
     for i in range(n):
-        kind = ['sq', 'nonsq', 'line'][i % 3]
-        shape = _rand_shape(rng, kind, 2, ctx.pick(10, 24))
+        kind, shape = _vjp_shape(ctx, rng, i, ctx.pick(10, 32))
         space = ['pupil', 'psf'][i % 2]
-        cls = f'{kind}/{space}'
-        desc = {'shape': shape, 'space': space, 'sub': _subseed(rng)}
+        variant = VJP_VARIANTS[(i // 3) % len(VJP_VARIANTS)]
+        hist = ['reused-instance', 'copy', 'data-reassigned', 'after-pad-crop'][(i // 12) % 4] if variant == 'history' else None
+        cls = f'{kind}/{space}' + (f'/history:{hist}' if hist else '')
+        desc = {'shape': shape, 'space': space, 'variant': variant, 'sub': _subseed(rng)}
 
-        def build(r_, shape=shape, space=space):
+        def build(r_, shape=shape, space=space, variant=variant, hist=hist):
             E = crandn(r_, shape) * float(r_.uniform(0.1, 10))
+            if variant == 'dtypes':
+                E = f32_exact(E)
 
             def f(x):
                 return np.asarray(P.Wavefront(x, 0.6, 0.1, space).intensity.data)
 
             def vjp(x, g):
                 return P.Wavefront(x, 0.6, 0.1, space).intensity_backprop(g).data
-            return Vjp(f, vjp, E, gkind='r', xkind='c', h=1e-2 * float(np.max(np.abs(E))))
+            if hist is not None:
+                w = P.Wavefront(E * 0.5 + 1, 0.6, 0.1, space)      # one instance for every call of the case
+                w.intensity_backprop(np.ones(shape))
+                w.intensity
+                if hist == 'copy':
+                    w = w.copy()
+                if hist == 'after-pad-crop':
+                    big = tuple(s + 4 for s in shape)
+                    w.pad2d(None, out_shape=big)
+                    w.intensity_backprop(np.ones(big))
+                    w.crop(shape)
+
+                def vjp(x, g):                                       # noqa: F811
+                    if hist == 'data-reassigned' or not same(w.data, x):
+                        w.data = x
+                    w.intensity
+                    return w.intensity_backprop(g).data
+            twins = config_twins(row, f, vjp, 'c', 'r', variant) if variant in ('dtypes', 'layouts') else ()
+            return Vjp(f, vjp, E, gkind='r', xkind='c', h=1e-2 * float(np.max(np.abs(E))), twins=twins, after32=variant == 'dtypes', warm=variant == 'dtypes' and bool(r_.integers(2)))
         yield cls, desc, build
 
 
 def gen_phase(ctx, rng):
     """Wavefront.from_amp_and_phase <-> from_amp_and_phase_backprop_phase."""
     from prysm import propagation as P
-    n = ctx.share(ctx.pick(720, 9600))
+    row = 'Wavefront.from_amp_and_phase_backprop_phase'
+    n = ctx.share(ctx.pick(720, 20000))
     for i in range(n):
-        kind = ['sq', 'nonsq', 'line'][i % 3]
-        shape = _rand_shape(rng, kind, 2, ctx.pick(10, 24))
+        kind, shape = _vjp_shape(ctx, rng, i, ctx.pick(10, 32))
         ak = ['real', 'complex', 'binary'][(i // 3) % 3]
         wvl = float(np.round(rng.uniform(0.4, 2.0), 3))
         rms = float(np.round(10 ** rng.uniform(0, 2.5), 2))          # nm
-        cls = f'amp:{ak}'
-        desc = {'shape': shape, 'amp': ak, 'wvl': wvl, 'phase_rms_nm': rms, 'sub': _subseed(rng)}
+        variant = VJP_VARIANTS[(i // 9 + i) % len(VJP_VARIANTS)]
+        hist = ['reused-instance', 'copy', 'data-reassigned'][(i // 4) % 3] if variant == 'history' else None
+        cls = f'amp:{ak}' + (f'/history:{hist}' if hist else '')
+        desc = {'shape': shape, 'amp': ak, 'wvl': wvl, 'phase_rms_nm': rms, 'variant': variant, 'shape_kind': kind,
+                'sub': _subseed(rng)}
 
-        def build(r_, shape=shape, ak=ak, wvl=wvl, rms=rms):
+        def build(r_, shape=shape, ak=ak, wvl=wvl, rms=rms, variant=variant, hist=hist):
             amp = r_.uniform(0.1, 1.5, shape)
             if ak == 'complex':
                 amp = amp * np.exp(1j * r_.uniform(-3, 3, shape))
@@ -630,6 +1233,8 @@ def gen_phase(ctx, rng):
                 if amp.sum() < 2:
                     amp[...] = 1.0
             ph = r_.standard_normal(shape) * rms
+            if variant == 'dtypes':
+                ph = f32_exact(ph)
 
             def f(p):
                 return P.Wavefront.from_amp_and_phase(amp, p, wvl, 0.1).data
@@ -637,35 +1242,70 @@ def gen_phase(ctx, rng):
             def vjp(p, g):
                 w = P.Wavefront.from_amp_and_phase(amp, p, wvl, 0.1)
                 return w.from_amp_and_phase_backprop_phase(P.Wavefront(g, wvl, 0.1))
+            if hist is not None:
+                state = {}
+
+                def vjp(p, g):                                        # noqa: F811
+                    # the forward object is built once per phase array and then serves several upstream gradients
+                    if state.get('p') is None or not same(state['p'], p):
+                        if hist == 'data-reassigned':
+                            # the object was made for another phase screen and used; then it is given the field of this one
+                            w = P.Wavefront.from_amp_and_phase(amp, p * 0.5 + 3.0, wvl, 0.1)
+                            w.from_amp_and_phase_backprop_phase(P.Wavefront(np.ones(shape) * (2 - 1j), wvl, 0.1))
+                            w.data = P.Wavefront.from_amp_and_phase(amp, p, wvl, 0.1).data
+                        else:
+                            w = P.Wavefront.from_amp_and_phase(amp, p, wvl, 0.1)
+                        w.from_amp_and_phase_backprop_phase(P.Wavefront(np.ones(shape) * (1 + 2j), wvl, 0.1))
+                        w.intensity
+                        state['w'] = w.copy() if hist == 'copy' else w
+                        state['p'] = np.array(p, copy=True)
+                        state['gw'] = P.Wavefront(np.zeros(shape, dtype=complex), wvl, 0.1)
+                    state['gw'].data = g
+                    return state['w'].from_amp_and_phase_backprop_phase(state['gw'])
             h = 1e-2 * wvl * 1e3 / (2 * np.pi)     # 0.01 rad of phase
-            return Vjp(f, vjp, ph, gkind='c', xkind='r', h=h)
+            twins = config_twins(row, f, vjp, 'r', 'c', variant) if variant in ('dtypes', 'layouts') else ()
+            return Vjp(f, vjp, ph, gkind='c', xkind='r', h=h, twins=twins, after32=variant == 'dtypes', warm=variant == 'dtypes' and bool(r_.integers(2)))
         yield cls, desc, build
 
 
 def gen_modes(ctx, rng):
     """polynomials.sum_of_2d_modes <-> sum_of_2d_modes_backprop (linear in the weights)."""
     from prysm import polynomials
-    n = ctx.share(ctx.pick(720, 9600))
+    row = 'sum_of_2d_modes_backprop'
+    n = ctx.share(ctx.pick(720, 20000))
     for i in range(n):
-        kind = ['sq', 'nonsq', 'line'][i % 3]
-        shape = _rand_shape(rng, kind, 2, ctx.pick(10, 24))
-        K = [1, 2, 5, int(rng.integers(1, 12))][i % 4]
+        kind, shape = _vjp_shape(ctx, rng, i, ctx.pick(10, 32))
+        regime = kind in ('big', 'sliver')
+        K = [1, 2, 5, int(rng.integers(1, 12))][i % 4] if not regime else [1, 40, 150][(i // 12) % 3]
+        if regime and K * shape[0] * shape[1] > ctx.pick(2, 8) * 10 ** 6:
+            K = max(1, ctx.pick(2, 8) * 10 ** 6 // (shape[0] * shape[1]))
         as_list = (i % 2 == 0)
         gk = ['r', 'c'][(i // 2) % 2]
+        variant = LIN_VARIANTS[(i // 4 + i) % len(LIN_VARIANTS)]
+        mlay = ['C', 'F', 'strided'][(i // 5) % 3] if not (as_list or regime) else 'C'      # layout of the mode cube itself
         cls = f'{"list" if as_list else "array"}/databar:{"real" if gk == "r" else "complex"}'
-        desc = {'shape': shape, 'K': K, 'modes_as_list': as_list, 'sub': _subseed(rng)}
+        desc = {'shape': shape, 'K': K, 'modes_as_list': as_list, 'variant': variant, 'modes_layout': mlay, 'shape_kind': kind,
+                'sub': _subseed(rng)}
 
-        def build(r_, shape=shape, K=K, as_list=as_list, gk=gk):
-            modes = r_.standard_normal((K,) + shape)
+        def build(r_, shape=shape, K=K, as_list=as_list, gk=gk, variant=variant, mlay=mlay):
+            modes = relayout(r_.standard_normal((K,) + shape), mlay)
             mm = [m for m in modes] if as_list else modes
-            return Lin(lambda w: polynomials.sum_of_2d_modes(mm, w), lambda g: polynomials.sum_of_2d_modes_backprop(mm, g),
-                       (K,), shape, xkind='r', ykind=gk)
+            keep = modes.copy()
+            c = Lin(lambda w: polynomials.sum_of_2d_modes(mm, w), lambda g: polynomials.sum_of_2d_modes_backprop(mm, g),
+                    (K,), shape, xkind='r', ykind=gk).vary(row, variant, r_)
+
+            def modes_equal():
+                if not same(modes, keep):
+                    ctx.event(f'argument-modified-in-place:{row}:modes')
+            c.plan.append(('do', modes_equal))
+            return c
         yield cls, desc, build
 
 
-def _dm_ifn(N, sigma):
-    c = np.arange(N) - N // 2
-    x, y = np.meshgrid(c, c)
+def _dm_ifn(N, sigma, M=None):
+    cy = np.arange(N) - N // 2
+    cx = cy if M is None else np.arange(M) - M // 2
+    x, y = np.meshgrid(cx, cy)
     return np.exp(-(x * x + y * y) / (2.0 * sigma * sigma))
 
 
@@ -683,26 +1323,44 @@ DM_CONFIGS = [
     (('ifn=odd', 'shift!=0', 'pad'), {'odd': True, 'shift': (1.5, -0.7), 'dN': 8}),
     (('rot!=0', 'shift!=0', 'crop'), {'rot': (5, 0, 3), 'shift': (1.0, 2.0), 'dN': -8}),
     (('upsample!=1', 'pad'), {'upsample': 2, 'dN': 8}),
+    # numeric regimes / geometry classes added by the hardening pass
+    (('sep=per-axis',), {'sep2': True}),
+    (('ifn=nonsq', 'pad'), {'nonsq': True, 'dN': 6}),
+    (('ifn=nonsq', 'shift!=0', 'crop'), {'nonsq': True, 'shift': (0.75, -1.5), 'dN': -6}),
+    (('big', 'shift!=0'), {'big': True, 'shift': (0.3, 2.2)}),
+    (('big', 'upsample!=1', 'crop'), {'big': True, 'upsample': 1.5, 'dN': -10}),
+    (('upsample=per-axis', 'pad'), {'upsample': (1.5, 2), 'dN': 4}),
 ]
+DM_VARIANTS = ('plain', 'wfe-history', 'dtypes', 'copy-history', 'layouts', 'wfe-history')
 
 
 def gen_dm(ctx, rng):
     """DM.render <-> DM.render_backprop (render is linear in the actuator commands)."""
-    import warnings
     from prysm.x.dm import DM
-    reps = ctx.pick(30, 300)
+    row = 'DM.render_backprop'
+    reps = ctx.pick(36, 640)
     k = -1
     for rep in range(reps):
-        for feats, kw in DM_CONFIGS:
+        for ci, (feats, kw) in enumerate(DM_CONFIGS):
             k += 1
             if not ctx.mine(k):
                 continue
+            big = kw.get('big', False)
+            if big and rep % ctx.pick(6, 3) != 0:
+                continue
             odd = kw.get('odd', False)
-            N = (24 if rep == 0 else int(rng.integers(12, 21)) * 2) + (1 if odd else 0)
+            N = (24 if rep == 0 else int(rng.integers(12, ctx.pick(21, 36))) * 2) + (1 if odd else 0)
             Nact = [4, 3, 5][k % 3] if rep else 4
             sep = [3, 4][k % 2]
+            if big:
+                N = int(rng.integers(ctx.pick(48, 80), ctx.pick(65, 129))) * 2
+                Nact = int(rng.integers(8, ctx.pick(13, 25)))
+                sep = max(2, (N // 2 - 4) // (Nact // 2 + 1) - 1)
             if (Nact // 2 + 1) * sep + sep // 2 >= N // 2:
                 sep = 3
+            M = N + [8, -6][k % 2] if kw.get('nonsq') else N
+            if kw.get('sep2'):
+                sep = (sep, sep - 1) if k % 2 else (sep - 1, sep)
             shift = kw.get('shift', (0, 0))
             if rep and nz(shift):
                 shift = tuple(float(v) for v in np.round(rng.uniform(-3, 3, 2), 2))
@@ -710,93 +1368,228 @@ def gen_dm(ctx, rng):
             if rep and nz(rot):
                 rot = tuple(float(v) for v in np.round(rng.uniform(-12, 12, 3), 1))
             up = kw.get('upsample', 1)
-            Ninter = int(N * up) if up != 1 else N
-            Nout = Ninter + kw.get('dN', 0)
-            wfe = bool((k + rep) % 2 == 0)
+            ups = up if isinstance(up, tuple) else (up, up)
+            inter = (int(N * ups[0]), int(M * ups[1])) if up != 1 else (N, M)
+            dN = kw.get('dN', 0)
+            Nout = (inter[0] + dN, inter[1] + dN)
+            Nout_arg = Nout[0] if (Nout[0] == Nout[1] and k % 2 == 0) else Nout
             sigma = float(np.round(rng.uniform(1.0, 2.0), 2))
+            variant = DM_VARIANTS[(rep + ci) % len(DM_VARIANTS)]
+            rotated = nz(rot)
+            if rotated and variant in ('dtypes', 'layouts'):
+                variant = 'plain'        # the rotated adjoint is only approximate (ledger): one known key, not one per configuration
+            wfe = bool((k + rep) % 2 == 0)
             cls = '+'.join(feats) if feats else 'plain'
-            desc = {'N': N, 'Nact': Nact, 'sep': sep, 'shift': shift, 'rot': rot, 'upsample': up, 'Nout': Nout, 'wfe': wfe,
-                    'sigma': sigma, 'sub': _subseed(rng)}
+            desc = {'N': (N, M), 'Nact': Nact, 'sep': sep, 'shift': shift, 'rot': rot, 'upsample': up, 'Nout': Nout, 'wfe': wfe,
+                    'sigma': sigma, 'variant': variant, 'sub': _subseed(rng)}
 
-            def build(r_, N=N, Nact=Nact, sep=sep, shift=shift, rot=rot, up=up, Nout=Nout, wfe=wfe, sigma=sigma):
-                ifn = _dm_ifn(N, sigma)
-                with warnings.catch_warnings():
-                    warnings.simplefilter('ignore')
-                    dm = DM(ifn, Nout=Nout, Nact=Nact, sep=sep, shift=shift, rot=rot, upsample=up)
+            def build(r_, N=N, M=M, Nact=Nact, sep=sep, shift=shift, rot=rot, up=up, Nout=Nout, Nout_arg=Nout_arg, wfe=wfe,
+                      sigma=sigma, variant=variant, rotated=rotated):
+                ifn = _dm_ifn(N, sigma, M)
 
-                def fwd(a):
+                def new_dm(dt='f64', prec=64):
+                    with warnings.catch_warnings():
+                        warnings.simplefilter('ignore')
+                        with precision(prec):
+                            return DM(cast(ifn, dt), Nout=Nout_arg, Nact=Nact, sep=sep, shift=shift, rot=rot, upsample=up)
+                dms = {'orig': new_dm()}
+                ashape = dms['orig'].actuators.shape
+                try:     # the shape render() really returns (for a non-square grid it is not always Nout): the map's codomain
+                    oshape = dms['orig'].render(wfe=wfe).shape
+                except Exception:
+                    oshape = Nout
+                flag = {'base': wfe, 'after32': wfe}
+
+                def which(t):
+                    return dms['orig']
+
+                def fwd(a, t='base'):
+                    dm = which(t)
                     dm.update(a)
-                    return dm.render(wfe=wfe)
+                    return dm.render(wfe=flag[t])
 
-                def bwd(g):
-                    return dm.render_backprop(g.copy(), wfe=wfe)
-                return Lin(fwd, bwd, dm.actuators.shape, (Nout, Nout), xkind='r', ykind='r')
+                def bwd(g, t='base'):
+                    return which(t).render_backprop(g, wfe=flag[t])
+                c = Lin(fwd, bwd, ashape, oshape, xkind='r', ykind='r', fwd_name='DM.render', tagged=True)
+
+                def fresh():
+                    d2 = new_dm()
+
+                    def f2(a, t='base'):
+                        d2.update(a)
+                        return d2.render(wfe=flag[t])
+                    return f2, (lambda g, t='base': d2.render_backprop(g, wfe=flag[t]))
+                c.fresh = fresh
+                if variant in ('plain', 'layouts'):
+                    c.vary(row, variant, r_)
+                    for t in c.tags:
+                        flag[t] = wfe
+                    return c
+                if variant == 'dtypes':
+                    # a double-precision mirror and a single-precision one (built under precision 32 from a float32
+                    # influence function); each is driven under both configured precisions with both gradient widths
+                    c.vary(row, variant, r_)
+                    for t in c.tags:
+                        flag[t] = wfe
+                    c.fresh = None
+
+                    def which(t):                                     # noqa: F811
+                        if c.tags[t].xdt == 'f32':
+                            if 'narrow' not in dms:
+                                dms['narrow'] = new_dm('f32', 32)
+                            return dms['narrow']
+                        return dms['orig']
+                    c.fwd = lambda a, t: (which(t).update(a), which(t).render(wfe=flag[t]))[1]
+                    c.bwd = lambda g, t: which(t).render_backprop(g, wfe=flag[t])
+                    return c
+                # histories on one mirror: the other value of the wfe flag, the first value again, then a copy made
+                # after use driven with both flags.  A rotated mirror's adjoint is only approximate (ledger), so it is
+                # judged against a brand-new mirror only.
+                law = not rotated
+                HK = 'C06/DM.render_backprop/history:'      # one key per kind of history, whatever the geometry class
+                c.tags = {'base': Tag('base', law=law),
+                          'flip': Tag('flip', map_id='B', key=HK + 'after-wfe-flip', mon='history', law=law),
+                          'back': Tag('back', ref='base', key=HK + 'after-wfe-flip', mon='history', law=law),
+                          'copyA': Tag('copyA', ref='base', key=HK + 'copy-after-use', mon='history', law=law),
+                          'copyB': Tag('copyB', map_id='B', ref='flip', key=HK + 'copy-after-use', mon='history', law=law)}
+                flag.update(base=wfe, flip=not wfe, back=wfe, copyA=wfe, copyB=not wfe)
+
+                def which(t):                                         # noqa: F811
+                    return dms['copy'] if t.startswith('copy') else dms['orig']
+                c.fwd = lambda a, t: (which(t).update(a), which(t).render(wfe=flag[t]))[1]
+                c.bwd = lambda g, t: which(t).render_backprop(g, wfe=flag[t])
+
+                def make_copy():
+                    dms['copy'] = dms['orig'].copy()
+                if variant == 'wfe-history':
+                    c.plan = [('f', 0, 'base'), ('b', 0, 'base'), ('f', 0, 'flip'), ('b', 0, 'flip'), ('b', 1, 'back'),
+                              ('f', 1, 'back'), ('b', 1, 'flip'), ('do', make_copy), ('f', 0, 'copyB'), ('b', 0, 'copyB'),
+                              ('b', 0, 'copyA')]
+                else:
+                    c.plan = [('f', 0, 'base'), ('b', 0, 'base'), ('do', make_copy), ('f', 1, 'copyA'), ('b', 1, 'copyA'),
+                              ('b', 0, 'copyB'), ('f', 0, 'copyB'), ('b', 1, 'base'), ('f', 1, 'flip'), ('b', 0, 'flip')]
+                return c
             yield cls, desc, build
+
+
+def _softmax_shape(ctx, rng, i):
+    """(nd, K, shape): 2- to 4-D inputs; every 10th case a numeric regime (many levels / very many variables / 5-D)."""
+    if i % 10 == 9:
+        j = (i // 10) % 4
+        if j == 0:
+            return 2, ctx.pick(96, 512), (int(rng.integers(2, 6)), ctx.pick(96, 512))
+        if j == 1:
+            return 2, 2, (ctx.pick(3000, 40000), 2)
+        if j == 2:
+            return 5, 3, (2, 1, 3, 2, 3)
+        return 3, ctx.pick(40, 200), (1, ctx.pick(40, 120), ctx.pick(40, 200))
+    nd = [2, 3, 4][i % 3]
+    K = [2, 3, 5, int(rng.integers(2, 9))][i % 4]
+    lead = tuple(int(v) for v in rng.integers(1, ctx.pick(5, 9), nd - 1))
+    return nd, K, lead + (K,)
 
 
 def gen_softmax(ctx, rng, which):
     """Softmax / GumbelSoftmax forward <-> backprop as vector-Jacobian products."""
     from prysm.x.optym.activation import Softmax, GumbelSoftmax
-    n = ctx.share(ctx.pick(720, 9600))
+    row = which + '.backprop'
+    n = ctx.share(ctx.pick(720, 20000))
+    HIST = ['annealed', 'shape-switch', 'double-backprop', 'forward-twice', 'copy']
     for i in range(n):
-        nd = [2, 3, 4][i % 3]
-        K = [2, 3, 5, int(rng.integers(2, 9))][i % 4]
-        lead = tuple(int(v) for v in rng.integers(1, ctx.pick(5, 8), nd - 1))
-        shape = lead + (K,)
+        nd, K, shape = _softmax_shape(ctx, rng, i)
+        regime = i % 10 == 9
         spread = float(np.round(rng.uniform(0.2, 2.0), 2))
         tau = float(np.round(10 ** rng.uniform(-0.7, 0.7), 3))
         epsk = ['default', 'given'][i % 2]
         seed = _subseed(rng)
-        cls = f'ndim={nd}' if which == 'Softmax' else f'ndim={nd}/eps:{epsk}'
+        ndl = f'ndim={nd}' if nd < 5 else 'ndim>4'
+        cls = ndl if which == 'Softmax' else f'{ndl}/eps:{epsk}'
         desc = {'shape': shape, 'spread': spread, 'sub': _subseed(rng)}
+        variant = VJP_VARIANTS[(i // 4 + i) % len(VJP_VARIANTS)]
+        hist = None
+        if variant == 'history':
+            hist = HIST[(i // 16) % len(HIST)]
+            if which == 'Softmax' and hist == 'annealed':
+                hist = 'shape-switch'
         # history: the node is built at another temperature, used once, then annealed to tau (the documented usage)
-        anneal = which != 'Softmax' and i % 3 == 2
+        anneal = hist == 'annealed'
         tau0 = float(np.round(tau * [4.0, 0.25, 10.0][(i // 3) % 3], 3)) if anneal else tau
+        desc['variant'] = variant
         if which != 'Softmax':
             desc.update(tau=tau, eps=epsk, noise_seed=seed)
             if anneal:
                 cls += '/annealed'
                 desc.update(built_with_tau=tau0)
+        if hist and not anneal:
+            cls += '/history:' + hist
 
-        def build(r_, shape=shape, spread=spread, tau=tau, epsk=epsk, seed=seed, tau0=tau0, anneal=anneal):
+        def build(r_, shape=shape, spread=spread, tau=tau, epsk=epsk, seed=seed, tau0=tau0, anneal=anneal, variant=variant, hist=hist):
             x0 = r_.standard_normal(shape) * spread
+            if variant == 'dtypes':
+                x0 = f32_exact(x0)
+            other = tuple(reversed(shape)) if len(set(shape)) > 1 else shape + (3,)
             if which == 'Softmax':
                 node = Softmax()
-
-                def f(x):
-                    return node.forward(x)
+                tt = 1.0
                 hh = 1e-2
             else:
                 node = GumbelSoftmax(tau=tau0, eps=(1e-9 if epsk == 'given' else None))
+                tt = tau
                 if anneal:
                     node.rng = np.random.default_rng(seed)
                     node.backprop(np.ones(shape) * node.forward(x0))   # one step at the old temperature
+                    node.tau = tau0 * 0.5 + tau * 0.5                  # ... annealing goes in steps
+                    node.backprop(np.ones(shape) * node.forward(x0))
                     node.tau = tau
-
-                def f(x):
-                    node.rng = np.random.default_rng(seed)
-                    return node.forward(x)
                 hh = 1e-2 * min(tau, 1.0)
+            nodes = {'n': node}
+            if hist == 'shape-switch':
+                # the same node has served inputs of other shapes (and dtypes) before
+                node.backprop(np.ones(other) * node.forward(r_.standard_normal(other)))
+                node.backprop(np.ones((2, 2), dtype=np.float32) * node.forward(np.ones((2, 2), dtype=np.float32)))
+            if hist == 'copy':
+                node.backprop(np.ones(shape) * node.forward(x0 * 0.5 + 1))
+                nodes['n'] = copy.deepcopy(node)
+
+            def f(x):
+                if which == 'Softmax':
+                    return nodes['n'].forward(x)
+                nodes['n'].rng = np.random.default_rng(seed)
+                return nodes['n'].forward(x)
 
             def vjp(x, g):
+                if hist == 'forward-twice':
+                    f(x * 0.25 - 1.0)             # an earlier forward pass at another point: the last one counts
+                if hist == 'shape-switch':
+                    nodes['n'].backprop(np.ones(other) * nodes['n'].forward(np.zeros(other)))
                 f(x)
-                return node.backprop(g)
-            return Vjp(f, vjp, x0, gkind='r', xkind='r', h=hh)
+                if hist == 'double-backprop':
+                    nodes['n'].backprop(g * 3.0 - 1.0)    # several gradients are pulled back through one forward pass
+                return nodes['n'].backprop(g)
+            twins = config_twins(row, f, vjp, 'r', 'r', variant) if variant in ('dtypes', 'layouts') else ()
+            return Vjp(f, vjp, x0, gkind='r', xkind='r', h=hh, twins=twins, after32=variant == 'dtypes', warm=variant == 'dtypes' and bool(r_.integers(2)),
+                       twin_scale=lambda g, xb: float(np.max(np.abs(g))) / min(tt, 1.0))
         yield cls, desc, build
 
 
 def gen_encoder(ctx, rng):
     """DiscreteEncoder forward <-> backprop, 2-D and N-D inputs, Softmax and GumbelSoftmax estimators."""
     from prysm.x.optym.activation import Softmax, GumbelSoftmax, DiscreteEncoder
-    n = ctx.share(ctx.pick(720, 9600))
+    row = 'DiscreteEncoder.backprop'
+    n = ctx.share(ctx.pick(720, 20000))
+    HIST = ['annealed', 'shape-switch', 'double-backprop', 'forward-twice', 'copy', 'discretize-between']
     for i in range(n):
+        regime = i % 10 == 9
         nd = [2, 3, 2, 4][i % 4]
         est = ['GumbelSoftmax', 'Softmax'][(i // 4) % 2]
         lk = ['int', 'gapped', 'arange'][(i // 2) % 3]
         K = [2, 3, 5, int(rng.integers(2, 8))][i % 4]
-        lead = tuple(int(v) for v in rng.integers(2, ctx.pick(5, 8), nd - 1))
+        lead = tuple(int(v) for v in rng.integers(2, ctx.pick(5, 9), nd - 1))
         if nd == 3 and i % 8 == 1:
             lead = (lead[0], K)        # the silent-broadcast trap: second dimension equal to the number of levels
+        if regime:
+            nd, K, shp = _softmax_shape(ctx, rng, i)
+            lead = shp[:-1]
         shape = lead + (K,)
         tau = float(np.round(10 ** rng.uniform(-0.5, 0.5), 3))
         seed = _subseed(rng)
@@ -805,42 +1598,80 @@ def gen_encoder(ctx, rng):
         elif lk == 'arange':
             levels = np.arange(K)
         else:
-            levels = np.sort(rng.choice(np.arange(-5, 20), K, replace=False))
+            levels = np.sort(rng.choice(np.arange(-5, 20 + K), K, replace=False))
         cls = 'ndim=2' if nd == 2 else 'ndim>2'
+        variant = VJP_VARIANTS[(i // 8 + i) % len(VJP_VARIANTS)]
+        hist = HIST[(i // 32) % len(HIST)] if variant == 'history' else None
+        if hist == 'annealed' and est != 'GumbelSoftmax':
+            hist = 'shape-switch'
         desc = {'shape': shape, 'estimator': est, 'levels': levels if lk == 'int' else levels.tolist(), 'tau': tau,
-                'noise_seed': seed, 'sub': _subseed(rng)}
-        anneal = est == 'GumbelSoftmax' and i % 3 == 1
+                'noise_seed': seed, 'variant': variant, 'sub': _subseed(rng)}
+        anneal = hist == 'annealed'
         tau0 = float(np.round(tau * [4.0, 0.2][(i // 3) % 2], 3)) if anneal else tau
         if anneal:
             cls += '/annealed'
             desc.update(built_with_tau=tau0)
+        elif hist:
+            cls += '/history:' + hist
+        lmax = float(K if lk == 'int' else np.max(np.abs(levels))) or 1.0
 
-        def build(r_, shape=shape, est=est, levels=levels, tau=tau, seed=seed, tau0=tau0, anneal=anneal):
+        def build(r_, shape=shape, est=est, levels=levels, tau=tau, seed=seed, tau0=tau0, anneal=anneal, variant=variant,
+                  hist=hist, lmax=lmax):
             x0 = r_.standard_normal(shape)
+            if variant == 'dtypes':
+                x0 = f32_exact(x0)
             e = GumbelSoftmax(tau=tau0) if est == 'GumbelSoftmax' else Softmax()
             node = DiscreteEncoder(e, levels)
             if anneal:
                 e.rng = np.random.default_rng(seed)
                 node.backprop(node.forward(x0))     # one step at the old temperature
                 node.est.tau = tau                  # anneal through the encoder's estimator, as the docstring describes
+            other = (3, shape[-1]) if len(shape) != 2 else (2, 3, shape[-1])
+            if hist == 'shape-switch':
+                node.backprop(node.forward(r_.standard_normal(other)))
+            nodes = {'n': node}
+            if hist == 'copy':
+                node.backprop(node.forward(x0 * 0.5))
+                nodes['n'] = copy.deepcopy(node)
 
             def f(x):
+                nn = nodes['n']
                 if est == 'GumbelSoftmax':
-                    e.rng = np.random.default_rng(seed)
-                return node.forward(x)
+                    nn.est.rng = np.random.default_rng(seed)
+                return nn.forward(x)
 
             def vjp(x, g):
+                nn = nodes['n']
+                if hist == 'forward-twice':
+                    f(x * 0.5 + 0.25)
+                if hist == 'shape-switch':
+                    nn.backprop(nn.forward(np.zeros(other)))
                 f(x)
-                return node.backprop(g)
-            return Vjp(f, vjp, x0, gkind='r', xkind='r', h=1e-2 * min(tau, 1.0) if est == 'GumbelSoftmax' else 1e-2)
+                if hist == 'discretize-between':
+                    nn.discretize(x)                # looking at the current discrete realisation of the same variables
+                if hist == 'double-backprop':
+                    nn.backprop(1.0 - g)
+                return nn.backprop(g)
+            if hist == 'discretize-between' and est == 'GumbelSoftmax':
+                # discretize() draws fresh noise through the estimator: after it the estimator no longer holds the
+                # state of the forward pass by design of the shared estimator -- not a history the statement covers
+                raise _OutOfDomain('discretize between forward and backprop with a stochastic estimator')
+            tt = min(tau, 1.0) if est == 'GumbelSoftmax' else 1.0
+            twins = config_twins(row, f, vjp, 'r', 'r', variant) if variant in ('dtypes', 'layouts') else ()
+            return Vjp(f, vjp, x0, gkind='r', xkind='r', h=1e-2 * tt, twins=twins, after32=variant == 'dtypes', warm=variant == 'dtypes' and bool(r_.integers(2)),
+                       twin_scale=lambda g, xb: float(np.max(np.abs(g))) * lmax / tt)
         yield cls, desc, build
+
+
+ACT_VARIANTS = ('plain', 'narrow', 'layout', 'history')
 
 
 def gen_activation(ctx, rng, name):
     """Tanh / Arctan / Softplus / Sigmoid with arbitrary (a, x0, y0): backprop(x) == d forward/dx, x not mutated."""
     from prysm.x.optym import activation
     klass = getattr(activation, name)
-    n = ctx.share(ctx.pick(720, 9600))
+    R = name + '.backprop'
+    n = ctx.share(ctx.pick(720, 20000))
     for i in range(n):
         pk = ['default', 'a', 'a,x0', 'a,x0,y0', 'x0,y0'][i % 5]
         given = pk.split(',')
@@ -848,22 +1679,49 @@ def gen_activation(ctx, rng, name):
         x0 = float(np.round(rng.uniform(-2, 2), 3)) if 'x0' in given else 0
         y0 = float(np.round(rng.uniform(-2, 2), 3)) if 'y0' in given else 0
         shape = [(7,), (3, 4), (2, 3, 2), (1,)][i % 4]
+        if i % 20 == 13:
+            shape = [(ctx.pick(20000, 200000),), (1, ctx.pick(5000, 50000)), (ctx.pick(150, 500), ctx.pick(150, 400)), ()][(i // 20) % 4]
         cls = f'params:{pk}'
-        desc = {'a': a, 'x0': x0, 'y0': y0, 'shape': shape, 'sub': _subseed(rng)}
-        reparam = pk != 'default' and i % 4 == 3
+        variant = ACT_VARIANTS[(i // 5 + i) % len(ACT_VARIANTS)]
+        desc = {'a': a, 'x0': x0, 'y0': y0, 'shape': shape, 'variant': variant, 'sub': _subseed(rng)}
+        reparam = pk != 'default' and (i % 4 == 3 or variant == 'history')
+        prec, xdt, lay, key, mon = 64, None, 'C', None, 'pointwise'
+        if variant == 'narrow':
+            prec, xdt = [(32, 'f32'), (64, 'f32'), (32, 'f64')][(i // 20) % 3]
+            key, mon = f'C06/{R}/dtypes:{prec}/{xdt}', 'precision'
+        if variant == 'layout' and len(shape) >= 1:
+            lay = ALT_LAYOUTS[(i // 20) % 3]
+            key, mon = f'C06/{R}/layout:{lay}', 'layout'
+        scal = ['python', 'numpy', 'int'][(i // 7) % 3]        # container class of the node parameters
+        desc['params_as'] = scal
         if reparam:
             cls += '/set-after-construction'
 
-        def build(r_, a=a, x0=x0, y0=y0, shape=shape, reparam=reparam):
+        def build(r_, a=a, x0=x0, y0=y0, shape=shape, reparam=reparam, variant=variant, prec=prec, xdt=xdt, lay=lay, key=key,
+                  mon=mon, scal=scal):
+            def cont(v):
+                if scal == 'numpy':
+                    return np.float64(v)
+                if scal == 'int' and float(v) == int(v):
+                    return int(v)
+                return v
             if reparam:
-                # history: built with other parameters, used once, then the public attributes are re-assigned
+                # history: built with other parameters, used once (also with another shape / dtype), then the public
+                # attributes are re-assigned, twice
                 node = klass(a=2.5 * a, x0=x0 - 1.0, y0=y0 + 0.5)
                 node.backprop(node.forward(np.linspace(-1, 1, 5)))
-                node.a, node.x0, node.y0 = a, x0, y0
+                if variant == 'history':
+                    node.backprop(node.forward(np.ones((2, 3), dtype=np.float32)))
+                    node.a, node.x0, node.y0 = 0.5 * a, x0 + 2.0, y0 - 1.5
+                    node.backprop(node.forward(np.linspace(-1, 1, 4)))
+                    node = copy.deepcopy(node)
+                node.a, node.x0, node.y0 = cont(a), cont(x0), cont(y0)
             else:
-                node = klass(a=a, x0=x0, y0=y0)
+                node = klass(a=cont(a), x0=cont(x0), y0=cont(y0))
             x = x0 + r_.uniform(-6, 6, shape) / a
-            return Pointwise(node, x, 3e-3 / a)
+            if xdt == 'f32':
+                x = f32_exact(x)
+            return Pointwise(node, np.asarray(x), 3e-3 / a, prec=prec, xdt=xdt, lay=lay, key=key, mon=mon)
         yield cls, desc, build
 
 
@@ -871,20 +1729,25 @@ def gen_cost(ctx, rng, name):
     """mean_square_error / negative_loglikelihood / bias_and_gain_invariant_error: gradient of the returned cost."""
     from prysm.x.optym import cost
     fn = getattr(cost, name)
-    n = ctx.share(ctx.pick(720, 9600))
+    n = ctx.share(ctx.pick(720, 20000))
+    VAR = ('plain', 'dtypes', 'layouts')
     for i in range(n):
         mk = ['unmasked', 'masked', 'mask-all-true'][i % 3]
         shape = [(5, 6), (12,), (4, 4), (3, 7), (2, 3, 4)][i % 5]
+        big = i % 15 == 11
+        if big:
+            shape = [(ctx.pick(4096, 60000),), (ctx.pick(64, 256), ctx.pick(70, 300)), (1, ctx.pick(3000, 30000))][(i // 15) % 3]
         if mk != 'unmasked' and name == 'bias_and_gain_invariant_error' and len(shape) == 3:
             shape = (6, 4)
         cls = mk
-        desc = {'shape': shape, 'mask': mk, 'sub': _subseed(rng)}
+        variant = VAR[(i // 3 + i) % 3]
+        desc = {'shape': shape, 'mask': mk, 'variant': variant, 'sub': _subseed(rng)}
         if name == 'negative_loglikelihood':
             tk = ['array', 'scalar'][(i // 3) % 2]
             cls = f'{mk}/target:{tk}'
             desc['target'] = tk
 
-        def build(r_, shape=shape, mk=mk, desc=desc):
+        def build(r_, shape=shape, mk=mk, desc=desc, variant=variant, big=big):
             mask = None
             if mk == 'masked':
                 mask = r_.uniform(0, 1, shape) > 0.35
@@ -893,52 +1756,86 @@ def gen_cost(ctx, rng, name):
                     mask.flat[0] = False
             elif mk == 'mask-all-true':
                 mask = np.ones(shape, dtype=bool)
+            scalar_target = False
             if name == 'negative_loglikelihood':
-                y = r_.uniform(0.05, 0.95, shape)
-                yhat = r_.uniform(0.05, 0.95, shape) if desc['target'] == 'array' else float(r_.uniform(0.05, 0.95))
-                return Cost(lambda m: fn(m, yhat, mask), y, 5e-4)
-            M = r_.uniform(0.1, 1.1, shape) * float(r_.uniform(0.5, 20))
-            D = r_.uniform(0.1, 1.1, shape) * float(r_.uniform(0.5, 20))
-            return Cost(lambda m: fn(m, D, mask), M, 3e-3 * float(np.max(M)))
+                M = r_.uniform(0.05, 0.95, shape)
+                scalar_target = desc['target'] != 'array'
+                D = r_.uniform(0.05, 0.95, shape) if not scalar_target else float(r_.uniform(0.05, 0.95))
+                h = 5e-4
+            else:
+                M = r_.uniform(0.1, 1.1, shape) * float(r_.uniform(0.5, 20))
+                D = r_.uniform(0.1, 1.1, shape) * float(r_.uniform(0.5, 20))
+                h = 3e-3 * float(np.max(M))
+            if variant == 'dtypes':
+                M = f32_exact(M)
+                D = D if scalar_target else f32_exact(D)
+            twins = []
+            if variant == 'dtypes':
+                for prec, ml, dl in DTYPE_SCHEDULE:
+                    mdt, ddt = _dt('r', ml), _dt('r', dl)
+                    Dt = D if scalar_target else cast(D, ddt)
+
+                    def ft(m, prec=prec, mdt=mdt, Dt=Dt):
+                        with precision(prec):
+                            return fn(cast(m, mdt), Dt, mask)
+                    twins.append(Twin(f'{prec}/{mdt}/{ddt}', ft, None, f'C06/{name}/dtypes:{prec}/{mdt}/{ddt}', RT_F32_NL, 'precision'))
+            if variant == 'layouts':
+                for lay in ALT_LAYOUTS:
+                    Dl = D if scalar_target else relayout(D, lay)
+                    ml_ = None if mask is None else relayout(mask, lay)
+
+                    def fl(m, lay=lay, Dl=Dl, ml_=ml_):
+                        return fn(relayout(m, lay), Dl, ml_)
+                    twins.append(Twin('layout:' + lay, fl, None, f'C06/{name}/layout:{lay}', RT_LIN, 'layout'))
+            return Cost(lambda m: fn(m, D, mask), M, h, twins=twins, big=big)
         yield cls, desc, build
 
 
 def gen_spatial(ctx, rng, axis):
     """SpatialGradient2D.forward_x/y <-> backprop_x/y."""
     from prysm.x.optym.operators import SpatialGradient2D
-    op = SpatialGradient2D()
-    fwd = getattr(op, 'forward_' + axis)
-    bwd = getattr(op, 'backprop_' + axis)
-    n = ctx.share(ctx.pick(720, 9600))
-    shapes0 = [(3, 3), (4, 4), (3, 4), (3, 5), (5, 3), (6, 4), (4, 7), (5, 8)]
+    row = 'SpatialGradient2D.backprop_' + axis
+    op = SpatialGradient2D()          # one operator instance serves every case of the row (shape after shape)
+    n = ctx.share(ctx.pick(720, 20000))
+    shapes0 = [(3, 3), (4, 4), (3, 4), (3, 5), (5, 3), (6, 4), (4, 7), (5, 8), (1, 5), (5, 1), (2, 2), (2, 6), (6, 2)]
     for i in range(n):
         if i < len(shapes0) and ctx.shard == 0:
             shape = shapes0[i]
+        elif i % 12 == 7:
+            shape = _big_shape(rng, ['big', 'sliver'][(i // 12) % 2], ctx.pick(160, 600), ctx.pick(2048, 20000))
         else:
             kind = ['sq', 'wide', 'tall'][i % 3]
             if kind == 'sq':
-                shape = _rand_shape(rng, 'sq', 3, ctx.pick(10, 24))
+                shape = _rand_shape(rng, 'sq', 3, ctx.pick(10, 32))
             else:
-                a, b = sorted(_rand_shape(rng, 'nonsq', 3, ctx.pick(10, 24)))
+                a, b = sorted(_rand_shape(rng, 'nonsq', 3, ctx.pick(10, 32)))
                 shape = (a, b) if kind == 'wide' else (b, a)
         kind = 'square' if shape[0] == shape[1] else ('wide' if shape[1] > shape[0] else 'tall')
         xk = ['r', 'c'][i % 2]
+        variant = LIN_VARIANTS[(i // 2 + i // 8) % len(LIN_VARIANTS)]
         cls = kind
-        desc = {'shape': shape, 'x': xk, 'sub': _subseed(rng)}
+        desc = {'shape': shape, 'x': xk, 'variant': variant, 'sub': _subseed(rng)}
 
-        def build(r_, shape=shape, xk=xk):
-            return Lin(fwd, bwd, shape, shape, xkind=xk, ykind=xk, fwd_name='SpatialGradient2D.forward_' + axis)
+        def build(r_, shape=shape, xk=xk, variant=variant):
+            c = Lin(getattr(op, 'forward_' + axis), getattr(op, 'backprop_' + axis), shape, shape, xkind=xk, ykind=xk,
+                    fwd_name='SpatialGradient2D.forward_' + axis).vary(row, variant, r_)
+
+            def fresh():
+                o2 = SpatialGradient2D()
+                return getattr(o2, 'forward_' + axis), getattr(o2, 'backprop_' + axis)
+            c.fresh = fresh
+            return c
         yield cls, desc, build
 
 
 def gen_f32(ctx, rng):
-    """float32 configuration slice of the mdft / fixed-sampling adjoints (loose tolerance)."""
+    """single-precision slice of the mdft / fixed-sampling adjoints: precision 32, complex64 data (loose tolerance)."""
     from prysm.fttools import mdft
     from prysm import propagation as P
-    n = ctx.share(ctx.pick(96, 1600))
+    n = ctx.share(ctx.pick(96, 4800))
     for i in range(n):
-        sa = _rand_shape(rng, ['sq', 'nonsq'][i % 2], 3, 12)
-        sb = _rand_shape(rng, ['sq', 'nonsq'][(i // 2) % 2], 3, 12)
+        sa = _rand_shape(rng, ['sq', 'nonsq'][i % 2], 3, ctx.pick(12, 40))
+        sb = _rand_shape(rng, ['sq', 'nonsq'][(i // 2) % 2], 3, ctx.pick(12, 40))
         Q = _Q_of(rng, ['scalar', 'pair'][i % 2])
         shift = tuple(float(v) for v in np.round(rng.uniform(-2, 2, 2), 5))   # fresh key => bases built in float32
         which = ['dft2', 'idft2', 'focus'][i % 3]
@@ -946,63 +1843,63 @@ def gen_f32(ctx, rng):
         desc = {'in': sa, 'out': sb, 'Q': Q, 'shift': shift, 'sub': _subseed(rng)}
 
         def build(r_, sa=sa, sb=sb, Q=Q, shift=shift, which=which):
-            def wrap(fn):
-                def g(*a):
-                    with precision(32):
-                        return fn(*a)
-                return g
             if which == 'focus':
-                return Lin(wrap(lambda x: P.focus_fixed_sampling(x, 0.1, 100., 0.5, 20., sb, shift=shift)),
-                           wrap(lambda y: P.focus_fixed_sampling_backprop(y, 0.1, 100., 0.5, 20., sa, shift=shift)),
-                           sa, sb, rtol=RT_F32)
-            f, b = getattr(mdft, which), getattr(mdft, which + '_backprop')
-            return Lin(wrap(lambda x: f(x, Q, sb, shift)), wrap(lambda y: b(y, Q, sa, shift)), sa, sb, rtol=RT_F32)
+                c = Lin(lambda x: P.focus_fixed_sampling(x, 0.1, 100., 0.5, 20., sb, shift=shift),
+                        lambda y: P.focus_fixed_sampling_backprop(y, 0.1, 100., 0.5, 20., sa, shift=shift), sa, sb)
+            else:
+                f, b = getattr(mdft, which), getattr(mdft, which + '_backprop')
+                c = Lin(lambda x: f(x, Q, sb, shift), lambda y: b(y, Q, sa, shift), sa, sb)
+            c.tags = {'base': Tag('base', prec=32, xdt='c64', ydt='c64', rtol=RT_F32)}
+            return c
         yield cls, desc, build
 
 
-# (row name = companion routine, monitor kind, generator)
+# (row name = companion routine, monitor kinds, generator)
+LINM = ('adjoint', 'history', 'layout', 'precision')
+VJPM = ('dirderiv', 'history', 'layout', 'precision')
 TABLE = [
-    ('mdft.dft2_backprop', 'adjoint', lambda c, r: gen_mdft(c, r, 'dft2')),
-    ('mdft.idft2_backprop', 'adjoint', lambda c, r: gen_mdft(c, r, 'idft2')),
-    ('focus_fixed_sampling_backprop', 'adjoint', lambda c, r: gen_ffs(c, r, 'focus', 'function')),
-    ('Wavefront.focus_fixed_sampling_backprop', 'adjoint', lambda c, r: gen_ffs(c, r, 'focus', 'Wavefront')),
-    ('unfocus_fixed_sampling_backprop', 'adjoint', lambda c, r: gen_ffs(c, r, 'unfocus', 'function')),
-    ('Wavefront.intensity_backprop', 'dirderiv', gen_intensity),
-    ('Wavefront.from_amp_and_phase_backprop_phase', 'dirderiv', gen_phase),
-    ('sum_of_2d_modes_backprop', 'adjoint', gen_modes),
-    ('to_fpm_and_back_backprop', 'adjoint', lambda c, r: gen_tfb(c, r, 'function')),
-    ('Wavefront.to_fpm_and_back_backprop', 'adjoint', lambda c, r: gen_tfb(c, r, 'Wavefront')),
-    ('Wavefront.babinet_backprop', 'adjoint', gen_babinet),
-    ('DM.render_backprop', 'adjoint', gen_dm),
-    ('Softmax.backprop', 'dirderiv', lambda c, r: gen_softmax(c, r, 'Softmax')),
-    ('GumbelSoftmax.backprop', 'dirderiv', lambda c, r: gen_softmax(c, r, 'GumbelSoftmax')),
-    ('DiscreteEncoder.backprop', 'dirderiv', gen_encoder),
-    ('Tanh.backprop', 'pointwise', lambda c, r: gen_activation(c, r, 'Tanh')),
-    ('Arctan.backprop', 'pointwise', lambda c, r: gen_activation(c, r, 'Arctan')),
-    ('Softplus.backprop', 'pointwise', lambda c, r: gen_activation(c, r, 'Softplus')),
-    ('Sigmoid.backprop', 'pointwise', lambda c, r: gen_activation(c, r, 'Sigmoid')),
-    ('mean_square_error', 'dirderiv', lambda c, r: gen_cost(c, r, 'mean_square_error')),
-    ('negative_loglikelihood', 'dirderiv', lambda c, r: gen_cost(c, r, 'negative_loglikelihood')),
-    ('bias_and_gain_invariant_error', 'dirderiv', lambda c, r: gen_cost(c, r, 'bias_and_gain_invariant_error')),
-    ('SpatialGradient2D.backprop_x', 'adjoint', lambda c, r: gen_spatial(c, r, 'x')),
-    ('SpatialGradient2D.backprop_y', 'adjoint', lambda c, r: gen_spatial(c, r, 'y')),
-    ('float32-config', 'adjoint', gen_f32),
+    ('mdft.dft2_backprop', LINM + ('fresh-object',), lambda c, r: gen_mdft(c, r, 'dft2')),
+    ('mdft.idft2_backprop', LINM + ('fresh-object',), lambda c, r: gen_mdft(c, r, 'idft2')),
+    ('focus_fixed_sampling_backprop', LINM, lambda c, r: gen_ffs(c, r, 'focus', 'function')),
+    ('Wavefront.focus_fixed_sampling_backprop', LINM + ('fresh-object',), lambda c, r: gen_ffs(c, r, 'focus', 'Wavefront')),
+    ('unfocus_fixed_sampling_backprop', LINM, lambda c, r: gen_ffs(c, r, 'unfocus', 'function')),
+    ('Wavefront.intensity_backprop', VJPM, gen_intensity),
+    ('Wavefront.from_amp_and_phase_backprop_phase', VJPM, gen_phase),
+    ('sum_of_2d_modes_backprop', LINM, gen_modes),
+    ('to_fpm_and_back_backprop', LINM, lambda c, r: gen_tfb(c, r, 'function')),
+    ('Wavefront.to_fpm_and_back_backprop', LINM, lambda c, r: gen_tfb(c, r, 'Wavefront')),
+    ('Wavefront.babinet_backprop', LINM, gen_babinet),
+    ('DM.render_backprop', LINM + ('fresh-object',), gen_dm),
+    ('Softmax.backprop', VJPM, lambda c, r: gen_softmax(c, r, 'Softmax')),
+    ('GumbelSoftmax.backprop', VJPM, lambda c, r: gen_softmax(c, r, 'GumbelSoftmax')),
+    ('DiscreteEncoder.backprop', VJPM, gen_encoder),
+    ('Tanh.backprop', ('pointwise', 'no-input-mutation', 'history', 'layout', 'precision'), lambda c, r: gen_activation(c, r, 'Tanh')),
+    ('Arctan.backprop', ('pointwise', 'no-input-mutation', 'history', 'layout', 'precision'), lambda c, r: gen_activation(c, r, 'Arctan')),
+    ('Softplus.backprop', ('pointwise', 'no-input-mutation', 'history', 'layout', 'precision'), lambda c, r: gen_activation(c, r, 'Softplus')),
+    ('Sigmoid.backprop', ('pointwise', 'no-input-mutation', 'history', 'layout', 'precision'), lambda c, r: gen_activation(c, r, 'Sigmoid')),
+    ('mean_square_error', VJPM, lambda c, r: gen_cost(c, r, 'mean_square_error')),
+    ('negative_loglikelihood', VJPM, lambda c, r: gen_cost(c, r, 'negative_loglikelihood')),
+    ('bias_and_gain_invariant_error', VJPM, lambda c, r: gen_cost(c, r, 'bias_and_gain_invariant_error')),
+    ('SpatialGradient2D.backprop_x', LINM + ('fresh-object',), lambda c, r: gen_spatial(c, r, 'x')),
+    ('SpatialGradient2D.backprop_y', LINM + ('fresh-object',), lambda c, r: gen_spatial(c, r, 'y')),
+    ('float32-config', ('adjoint',), gen_f32),
 ]
 KEY_ROUTINE = {'Wavefront.focus_fixed_sampling_backprop': 'focus_fixed_sampling_backprop',
                'Wavefront.to_fpm_and_back_backprop': 'to_fpm_and_back_backprop'}
-REQUIRED += [f'{kind}:{row}' for row, kind, _ in TABLE]
-REQUIRED += [f'no-input-mutation:{row}' for row, kind, _ in TABLE if kind == 'pointwise']
+REQUIRED += [f'{m}:{row}' for row, mons, _ in TABLE for m in mons]
 
 
 # ============================================================================================ entry points
 def run(ctx, only_row=None):
+    if isinstance(only_row, str):
+        only_row = {only_row}
     from prysm.fttools import mdft
     from prysm.conf import config
     prec0 = config.precision
     h = Harness(ctx)
     try:
-        for row, kind, gen in TABLE:
-            if only_row is not None and row != only_row:
+        for row, mons, gen in TABLE:
+            if only_row is not None and row not in only_row:
                 continue
             rng = ctx.rng('c06', row)
             for cls, desc, build in gen(ctx, rng):
@@ -1012,15 +1909,19 @@ def run(ctx, only_row=None):
         if config.precision is not prec0:
             config.precision = 32 if prec0 is np.float32 else 64
     ctx.note('max_relative_residual_of_passing_cases_by_row', {k: float(f'{v:.2e}') for k, v in sorted(h.roundoff.items())})
-    ctx.note('tolerances', {'adjoint': RT_LIN, 'directional': RT_DIR, 'richardson_settle': SETTLE, 'float32': RT_F32})
+    ctx.note('max_relative_residual_of_passing_single_precision_cases_by_row',
+             {k: float(f'{v:.2e}') for k, v in sorted(h.roundoff32.items())})
+    ctx.note('tolerances', {'adjoint': RT_LIN, 'directional': RT_DIR, 'richardson_settle': SETTLE, 'float32': RT_F32, 'float32_twin': RT_F32_NL,
+                            'same_call_again': RT_SAME, 'narrow_forward_gate': FWD_F32})
 
 
 def replay(ctx, rec):
     """Replay re-runs only the table row named in the witness key (same seed and shard => same cases)."""
     key = rec.get('key', '') if isinstance(rec, dict) else ''
     parts = key.split('/')
-    rows = {r for r, _, _ in TABLE}
-    only = parts[1] if len(parts) > 1 and parts[1] in rows else None
+    only = {r for r, _, _ in TABLE if len(parts) > 1 and KEY_ROUTINE.get(r, r) == parts[1]} or None
     if only is None and len(parts) > 1 and parts[1].startswith('SpatialGradient2D.forward_'):
-        only = 'SpatialGradient2D.backprop_' + parts[1][-1]
+        only = {'SpatialGradient2D.backprop_' + parts[1][-1]}
+    if only is None and len(parts) > 1 and parts[1] == 'DM.render':
+        only = {'DM.render_backprop'}
     run(ctx, only_row=only)
